@@ -110,6 +110,7 @@ variables
   pwTaken = [j \in Ops |-> FALSE],
   nextPoll = [p \in Pipes |-> 1],
   ppItem = [j \in Ops |-> 0],
+  pjLive = [j \in Ops |-> FALSE],
   h = InitH;
 
 define {
@@ -145,7 +146,7 @@ define {
   HoldsCtx(w) == w.k = "PW" /\ ~pwTaken[w.d]
   CtxAlive(p) == \/ HoldsCtx(inWaker[p])
                  \/ (CoreAlive(p) /\ (HoldsCtx(ppNC[p]) \/ HoldsCtx(ppBP[p])))
-                 \/ \E j \in PollJobs(p) : jkind[j] = "fut" /\ fres[j] = "none"
+                 \/ \E j \in PollJobs(p) : pjLive[j]
 }
 
 \* ---- core.schedule_thread
@@ -243,6 +244,7 @@ wk_lock:     \* [core] WakeQueue / WakeThread, [dw] DrainWaker, [dbl] DoubleWake
       if (strong[O(ww.d)] > 0) {
         strong[O(ww.d)] := strong[O(ww.d)] + 1;
         jkind[NewPoll(OpTab[ww.d].p)] := "fut";
+        pjLive[NewPoll(OpTab[ww.d].p)] := TRUE;
         nextPoll[OpTab[ww.d].p] := nextPoll[OpTab[ww.d].p] + 1;
         call ScheduleJob(O(ww.d), NewPoll(OpTab[ww.d].p));
         goto z_pw_after;
@@ -471,10 +473,11 @@ z_rj_ok:
 z_pp_gc:     \* a finished poll job may have held the last reference to the stream core / the pipe's context
   if (pollFn[OpTab[jj].p] /\ rv[self] = 0 /\ ~(\/ HoldsCtx(inWaker[OpTab[jj].p])
                                                \/ (CoreAlive(OpTab[jj].p) /\ (HoldsCtx(ppNC[OpTab[jj].p]) \/ HoldsCtx(ppBP[OpTab[jj].p])))
-                                               \/ \E j \in PollJobs(OpTab[jj].p) \ {jj} : jkind[j] = "fut" /\ fres[j] = "none")) {
+                                               \/ \E j \in PollJobs(OpTab[jj].p) \ {jj} : pjLive[j])) {
     pollFn[OpTab[jj].p] := FALSE;
     h := PFlag(PFlag(h, OpTab[jj].p, "in_dropped"), OpTab[jj].p, "closure_dropped");
   };
+  if (rv[self] # 5) { pjLive[jj] := FALSE; };
   return;
 z_slot2:
   if (dnState[jj] # "open") { rv[self] := 0; return; }
@@ -788,6 +791,7 @@ z_pcr1:
   strong[O(cop)] := strong[O(cop)] + (IF K(cop) = "pipe" THEN 2 ELSE 1);
   ppAlive[OpTab[cop].p] := (K(cop) = "pipe");
   jkind[NewPoll(OpTab[cop].p)] := "fut";
+  pjLive[NewPoll(OpTab[cop].p)] := TRUE;
   nextPoll[OpTab[cop].p] := nextPoll[OpTab[cop].p] + 1;
   call ScheduleJob(O(cop), NewPoll(OpTab[cop].p));
 z_pcr2:
@@ -1024,7 +1028,7 @@ VARIABLES pc, qstate, qpoll, jobs, wakeBlocked, schedule, pthreads, nspawned,
           dnState, dnWaker, parkTok, rv, rwb, rneed, dsl, atomic, strong, 
           ppPending, ppClosed, ppNotify, ppNC, ppBP, ppDepth, ppAlive, ppHeld, 
           inItems, inClosed, inWaker, pollFn, chuteFn, pwTaken, nextPoll, 
-          ppItem, h, stack
+          ppItem, pjLive, h, stack
 
 (* define statement *)
 RECURSIVE NTR(_)
@@ -1059,7 +1063,7 @@ CoreAlive(p) == ppAlive[p] \/ ppHeld[p] > 0
 HoldsCtx(w) == w.k = "PW" /\ ~pwTaken[w.d]
 CtxAlive(p) == \/ HoldsCtx(inWaker[p])
                \/ (CoreAlive(p) /\ (HoldsCtx(ppNC[p]) \/ HoldsCtx(ppBP[p])))
-               \/ \E j \in PollJobs(p) : jkind[j] = "fut" /\ fres[j] = "none"
+               \/ \E j \in PollJobs(p) : pjLive[j]
 
 VARIABLES dead, sti, rq, sq, sj, ww, rsq, bown, bwk, bi, bcur, bw, bsp, jq, 
           jj, jwk, fj, dq, dj, oq, oop, omode, oj, yq, yop, tq, top, af, wf, 
@@ -1074,10 +1078,10 @@ vars == << pc, qstate, qpoll, jobs, wakeBlocked, schedule, pthreads, nspawned,
            dnState, dnWaker, parkTok, rv, rwb, rneed, dsl, atomic, strong, 
            ppPending, ppClosed, ppNotify, ppNC, ppBP, ppDepth, ppAlive, 
            ppHeld, inItems, inClosed, inWaker, pollFn, chuteFn, pwTaken, 
-           nextPoll, ppItem, h, stack, dead, sti, rq, sq, sj, ww, rsq, bown, 
-           bwk, bi, bcur, bw, bsp, jq, jj, jwk, fj, dq, dj, oq, oop, omode, 
-           oj, yq, yop, tq, top, af, wf, wop, sf, sctx, xf, cop, kj, pp, np, 
-           nbp, nres, dp, pf, pctx, pq, pj, pd, nq >>
+           nextPoll, ppItem, pjLive, h, stack, dead, sti, rq, sq, sj, ww, rsq, 
+           bown, bwk, bi, bcur, bw, bsp, jq, jj, jwk, fj, dq, dj, oq, oop, 
+           omode, oj, yq, yop, tq, top, af, wf, wop, sf, sctx, xf, cop, kj, 
+           pp, np, nbp, nres, dp, pf, pctx, pq, pj, pd, nq >>
 
 ProcSet == (Threads) \cup (PoolSet)
 
@@ -1146,6 +1150,7 @@ Init == (* Global variables *)
         /\ pwTaken = [j \in Ops |-> FALSE]
         /\ nextPoll = [p \in Pipes |-> 1]
         /\ ppItem = [j \in Ops |-> 0]
+        /\ pjLive = [j \in Ops |-> FALSE]
         /\ h = InitH
         (* Procedure ScheduleThread *)
         /\ dead = [ self \in ProcSet |-> << >>]
@@ -1236,12 +1241,12 @@ st_reap(self) == /\ pc[self] = "st_reap"
                                  dsl, atomic, strong, ppPending, ppClosed, 
                                  ppNotify, ppNC, ppBP, ppDepth, ppAlive, 
                                  ppHeld, inItems, inClosed, inWaker, pollFn, 
-                                 chuteFn, pwTaken, nextPoll, ppItem, h, stack, 
-                                 sti, rq, sq, sj, ww, rsq, bown, bwk, bi, bcur, 
-                                 bw, bsp, jq, jj, jwk, fj, dq, dj, oq, oop, 
-                                 omode, oj, yq, yop, tq, top, af, wf, wop, sf, 
-                                 sctx, xf, cop, kj, pp, np, nbp, nres, dp, pf, 
-                                 pctx, pq, pj, pd, nq >>
+                                 chuteFn, pwTaken, nextPoll, ppItem, pjLive, h, 
+                                 stack, sti, rq, sq, sj, ww, rsq, bown, bwk, 
+                                 bi, bcur, bw, bsp, jq, jj, jwk, fj, dq, dj, 
+                                 oq, oop, omode, oj, yq, yop, tq, top, af, wf, 
+                                 wop, sf, sctx, xf, cop, kj, pp, np, nbp, nres, 
+                                 dp, pf, pctx, pq, pj, pd, nq >>
 
 st_join(self) == /\ pc[self] = "st_join"
                  /\ dead' = [dead EXCEPT ![self] = Tail(dead[self])]
@@ -1259,12 +1264,12 @@ st_join(self) == /\ pc[self] = "st_join"
                                  dsl, atomic, strong, ppPending, ppClosed, 
                                  ppNotify, ppNC, ppBP, ppDepth, ppAlive, 
                                  ppHeld, inItems, inClosed, inWaker, pollFn, 
-                                 chuteFn, pwTaken, nextPoll, ppItem, h, stack, 
-                                 sti, rq, sq, sj, ww, rsq, bown, bwk, bi, bcur, 
-                                 bw, bsp, jq, jj, jwk, fj, dq, dj, oq, oop, 
-                                 omode, oj, yq, yop, tq, top, af, wf, wop, sf, 
-                                 sctx, xf, cop, kj, pp, np, nbp, nres, dp, pf, 
-                                 pctx, pq, pj, pd, nq >>
+                                 chuteFn, pwTaken, nextPoll, ppItem, pjLive, h, 
+                                 stack, sti, rq, sq, sj, ww, rsq, bown, bwk, 
+                                 bi, bcur, bw, bsp, jq, jj, jwk, fj, dq, dj, 
+                                 oq, oop, omode, oj, yq, yop, tq, top, af, wf, 
+                                 wop, sf, sctx, xf, cop, kj, pp, np, nbp, nres, 
+                                 dp, pf, pctx, pq, pj, pd, nq >>
 
 st_dormant(self) == /\ pc[self] = "st_dormant"
                     /\ (thrHeld = "" \/ thrHeld = self) /\ (thrHeld = self => ~busyLocked[pthreads[sti[self]]])
@@ -1297,12 +1302,12 @@ st_dormant(self) == /\ pc[self] = "st_dormant"
                                     ppClosed, ppNotify, ppNC, ppBP, ppDepth, 
                                     ppAlive, ppHeld, inItems, inClosed, 
                                     inWaker, pollFn, chuteFn, pwTaken, 
-                                    nextPoll, ppItem, h, rq, sq, sj, ww, rsq, 
-                                    bown, bwk, bi, bcur, bw, bsp, jq, jj, jwk, 
-                                    fj, dq, dj, oq, oop, omode, oj, yq, yop, 
-                                    tq, top, af, wf, wop, sf, sctx, xf, cop, 
-                                    kj, pp, np, nbp, nres, dp, pf, pctx, pq, 
-                                    pj, pd, nq >>
+                                    nextPoll, ppItem, pjLive, h, rq, sq, sj, 
+                                    ww, rsq, bown, bwk, bi, bcur, bw, bsp, jq, 
+                                    jj, jwk, fj, dq, dj, oq, oop, omode, oj, 
+                                    yq, yop, tq, top, af, wf, wop, sf, sctx, 
+                                    xf, cop, kj, pp, np, nbp, nres, dp, pf, 
+                                    pctx, pq, pj, pd, nq >>
 
 st_max(self) == /\ pc[self] = "st_max"
                 /\ TRUE
@@ -1318,12 +1323,12 @@ st_max(self) == /\ pc[self] = "st_max"
                                 atomic, strong, ppPending, ppClosed, ppNotify, 
                                 ppNC, ppBP, ppDepth, ppAlive, ppHeld, inItems, 
                                 inClosed, inWaker, pollFn, chuteFn, pwTaken, 
-                                nextPoll, ppItem, h, stack, dead, sti, rq, sq, 
-                                sj, ww, rsq, bown, bwk, bi, bcur, bw, bsp, jq, 
-                                jj, jwk, fj, dq, dj, oq, oop, omode, oj, yq, 
-                                yop, tq, top, af, wf, wop, sf, sctx, xf, cop, 
-                                kj, pp, np, nbp, nres, dp, pf, pctx, pq, pj, 
-                                pd, nq >>
+                                nextPoll, ppItem, pjLive, h, stack, dead, sti, 
+                                rq, sq, sj, ww, rsq, bown, bwk, bi, bcur, bw, 
+                                bsp, jq, jj, jwk, fj, dq, dj, oq, oop, omode, 
+                                oj, yq, yop, tq, top, af, wf, wop, sf, sctx, 
+                                xf, cop, kj, pp, np, nbp, nres, dp, pf, pctx, 
+                                pq, pj, pd, nq >>
 
 st_spawn(self) == /\ pc[self] = "st_spawn"
                   /\ thrHeld = ""
@@ -1352,10 +1357,10 @@ st_spawn(self) == /\ pc[self] = "st_spawn"
                                   ppPending, ppClosed, ppNotify, ppNC, ppBP, 
                                   ppDepth, ppAlive, ppHeld, inItems, inClosed, 
                                   inWaker, pollFn, chuteFn, pwTaken, nextPoll, 
-                                  ppItem, rq, sq, sj, ww, rsq, bown, bwk, bi, 
-                                  bcur, bw, bsp, jq, jj, jwk, fj, dq, dj, oq, 
-                                  oop, omode, oj, yq, yop, tq, top, af, wf, 
-                                  wop, sf, sctx, xf, cop, kj, pp, np, nbp, 
+                                  ppItem, pjLive, rq, sq, sj, ww, rsq, bown, 
+                                  bwk, bi, bcur, bw, bsp, jq, jj, jwk, fj, dq, 
+                                  dj, oq, oop, omode, oj, yq, yop, tq, top, af, 
+                                  wf, wop, sf, sctx, xf, cop, kj, pp, np, nbp, 
                                   nres, dp, pf, pctx, pq, pj, pd, nq >>
 
 ScheduleThread(self) == st_reap(self) \/ st_join(self) \/ st_dormant(self)
@@ -1394,12 +1399,12 @@ rq_core(self) == /\ pc[self] = "rq_core"
                                  parkTok, rv, dsl, atomic, strong, ppPending, 
                                  ppClosed, ppNotify, ppNC, ppBP, ppDepth, 
                                  ppAlive, ppHeld, inItems, inClosed, inWaker, 
-                                 pollFn, chuteFn, pwTaken, nextPoll, ppItem, h, 
-                                 dead, sti, sq, sj, ww, rsq, bown, bwk, bi, 
-                                 bcur, bw, bsp, jq, jj, jwk, fj, dq, dj, oq, 
-                                 oop, omode, oj, yq, yop, tq, top, af, wf, wop, 
-                                 sf, sctx, xf, cop, kj, pp, np, nbp, nres, dp, 
-                                 pf, pctx, pq, pj, pd, nq >>
+                                 pollFn, chuteFn, pwTaken, nextPoll, ppItem, 
+                                 pjLive, h, dead, sti, sq, sj, ww, rsq, bown, 
+                                 bwk, bi, bcur, bw, bsp, jq, jj, jwk, fj, dq, 
+                                 dj, oq, oop, omode, oj, yq, yop, tq, top, af, 
+                                 wf, wop, sf, sctx, xf, cop, kj, pp, np, nbp, 
+                                 nres, dp, pf, pctx, pq, pj, pd, nq >>
 
 rq_notify(self) == /\ pc[self] = "rq_notify"
                    /\ cnotif' = [cnotif EXCEPT ![Head(rwb[self])] = cwait[Head(rwb[self])]]
@@ -1425,11 +1430,11 @@ rq_notify(self) == /\ pc[self] = "rq_notify"
                                    ppClosed, ppNotify, ppNC, ppBP, ppDepth, 
                                    ppAlive, ppHeld, inItems, inClosed, inWaker, 
                                    pollFn, chuteFn, pwTaken, nextPoll, ppItem, 
-                                   h, dead, sti, sq, sj, ww, rsq, bown, bwk, 
-                                   bi, bcur, bw, bsp, jq, jj, jwk, fj, dq, dj, 
-                                   oq, oop, omode, oj, yq, yop, tq, top, af, 
-                                   wf, wop, sf, sctx, xf, cop, kj, pp, np, nbp, 
-                                   nres, dp, pf, pctx, pq, pj, pd, nq >>
+                                   pjLive, h, dead, sti, sq, sj, ww, rsq, bown, 
+                                   bwk, bi, bcur, bw, bsp, jq, jj, jwk, fj, dq, 
+                                   dj, oq, oop, omode, oj, yq, yop, tq, top, 
+                                   af, wf, wop, sf, sctx, xf, cop, kj, pp, np, 
+                                   nbp, nres, dp, pf, pctx, pq, pj, pd, nq >>
 
 rq_sched(self) == /\ pc[self] = "rq_sched"
                   /\ schedule' = Append(schedule, rq[self])
@@ -1452,12 +1457,12 @@ rq_sched(self) == /\ pc[self] = "rq_sched"
                                   dsl, atomic, strong, ppPending, ppClosed, 
                                   ppNotify, ppNC, ppBP, ppDepth, ppAlive, 
                                   ppHeld, inItems, inClosed, inWaker, pollFn, 
-                                  chuteFn, pwTaken, nextPoll, ppItem, h, rq, 
-                                  sq, sj, ww, rsq, bown, bwk, bi, bcur, bw, 
-                                  bsp, jq, jj, jwk, fj, dq, dj, oq, oop, omode, 
-                                  oj, yq, yop, tq, top, af, wf, wop, sf, sctx, 
-                                  xf, cop, kj, pp, np, nbp, nres, dp, pf, pctx, 
-                                  pq, pj, pd, nq >>
+                                  chuteFn, pwTaken, nextPoll, ppItem, pjLive, 
+                                  h, rq, sq, sj, ww, rsq, bown, bwk, bi, bcur, 
+                                  bw, bsp, jq, jj, jwk, fj, dq, dj, oq, oop, 
+                                  omode, oj, yq, yop, tq, top, af, wf, wop, sf, 
+                                  sctx, xf, cop, kj, pp, np, nbp, nres, dp, pf, 
+                                  pctx, pq, pj, pd, nq >>
 
 Reschedule(self) == rq_core(self) \/ rq_notify(self) \/ rq_sched(self)
 
@@ -1490,11 +1495,12 @@ sj_push(self) == /\ pc[self] = "sj_push"
                                  atomic, strong, ppPending, ppClosed, ppNotify, 
                                  ppNC, ppBP, ppDepth, ppAlive, ppHeld, inItems, 
                                  inClosed, inWaker, pollFn, chuteFn, pwTaken, 
-                                 nextPoll, ppItem, h, dead, sti, rq, ww, rsq, 
-                                 bown, bwk, bi, bcur, bw, bsp, jq, jj, jwk, fj, 
-                                 dq, dj, oq, oop, omode, oj, yq, yop, tq, top, 
-                                 af, wf, wop, sf, sctx, xf, cop, kj, pp, np, 
-                                 nbp, nres, dp, pf, pctx, pq, pj, pd, nq >>
+                                 nextPoll, ppItem, pjLive, h, dead, sti, rq, 
+                                 ww, rsq, bown, bwk, bi, bcur, bw, bsp, jq, jj, 
+                                 jwk, fj, dq, dj, oq, oop, omode, oj, yq, yop, 
+                                 tq, top, af, wf, wop, sf, sctx, xf, cop, kj, 
+                                 pp, np, nbp, nres, dp, pf, pctx, pq, pj, pd, 
+                                 nq >>
 
 sj_sched(self) == /\ pc[self] = "sj_sched"
                   /\ schedule' = Append(schedule, sq[self])
@@ -1517,12 +1523,12 @@ sj_sched(self) == /\ pc[self] = "sj_sched"
                                   dsl, atomic, strong, ppPending, ppClosed, 
                                   ppNotify, ppNC, ppBP, ppDepth, ppAlive, 
                                   ppHeld, inItems, inClosed, inWaker, pollFn, 
-                                  chuteFn, pwTaken, nextPoll, ppItem, h, rq, 
-                                  sq, sj, ww, rsq, bown, bwk, bi, bcur, bw, 
-                                  bsp, jq, jj, jwk, fj, dq, dj, oq, oop, omode, 
-                                  oj, yq, yop, tq, top, af, wf, wop, sf, sctx, 
-                                  xf, cop, kj, pp, np, nbp, nres, dp, pf, pctx, 
-                                  pq, pj, pd, nq >>
+                                  chuteFn, pwTaken, nextPoll, ppItem, pjLive, 
+                                  h, rq, sq, sj, ww, rsq, bown, bwk, bi, bcur, 
+                                  bw, bsp, jq, jj, jwk, fj, dq, dj, oq, oop, 
+                                  omode, oj, yq, yop, tq, top, af, wf, wop, sf, 
+                                  sctx, xf, cop, kj, pp, np, nbp, nres, dp, pf, 
+                                  pctx, pq, pj, pd, nq >>
 
 z_sj_ret(self) == /\ pc[self] = "z_sj_ret"
                   /\ rv' = [rv EXCEPT ![self] = 0]
@@ -1541,12 +1547,12 @@ z_sj_ret(self) == /\ pc[self] = "z_sj_ret"
                                   atomic, strong, ppPending, ppClosed, 
                                   ppNotify, ppNC, ppBP, ppDepth, ppAlive, 
                                   ppHeld, inItems, inClosed, inWaker, pollFn, 
-                                  chuteFn, pwTaken, nextPoll, ppItem, h, dead, 
-                                  sti, rq, ww, rsq, bown, bwk, bi, bcur, bw, 
-                                  bsp, jq, jj, jwk, fj, dq, dj, oq, oop, omode, 
-                                  oj, yq, yop, tq, top, af, wf, wop, sf, sctx, 
-                                  xf, cop, kj, pp, np, nbp, nres, dp, pf, pctx, 
-                                  pq, pj, pd, nq >>
+                                  chuteFn, pwTaken, nextPoll, ppItem, pjLive, 
+                                  h, dead, sti, rq, ww, rsq, bown, bwk, bi, 
+                                  bcur, bw, bsp, jq, jj, jwk, fj, dq, dj, oq, 
+                                  oop, omode, oj, yq, yop, tq, top, af, wf, 
+                                  wop, sf, sctx, xf, cop, kj, pp, np, nbp, 
+                                  nres, dp, pf, pctx, pq, pj, pd, nq >>
 
 ScheduleJob(self) == sj_push(self) \/ sj_sched(self) \/ z_sj_ret(self)
 
@@ -1565,7 +1571,8 @@ wk_lock(self) == /\ pc[self] = "wk_lock"
                             /\ ww' = [ww EXCEPT ![self] = Head(stack[self]).ww]
                             /\ stack' = [stack EXCEPT ![self] = Tail(stack[self])]
                             /\ UNCHANGED << jkind, dwSt, dwW, dblTaken, strong, 
-                                            pwTaken, nextPoll, rq, sq, sj >>
+                                            pwTaken, nextPoll, pjLive, rq, sq, 
+                                            sj >>
                        ELSE /\ IF ww[self].k = "WQ"
                                   THEN /\ IF qstate[ww[self].q] = "WaitingForUnpark"
                                              THEN /\ pc' = [pc EXCEPT ![self] = Head(stack[self]).pc]
@@ -1588,7 +1595,8 @@ wk_lock(self) == /\ pc[self] = "wk_lock"
                                        /\ UNCHANGED << jkind, dwSt, dwW, 
                                                        dblTaken, parkTok, 
                                                        strong, pwTaken, 
-                                                       nextPoll, sq, sj >>
+                                                       nextPoll, pjLive, sq, 
+                                                       sj >>
                                   ELSE /\ IF ww[self].k = "PW"
                                              THEN /\ IF pwTaken[ww[self].d]
                                                         THEN /\ pc' = [pc EXCEPT ![self] = Head(stack[self]).pc]
@@ -1598,12 +1606,14 @@ wk_lock(self) == /\ pc[self] = "wk_lock"
                                                                              strong, 
                                                                              pwTaken, 
                                                                              nextPoll, 
+                                                                             pjLive, 
                                                                              sq, 
                                                                              sj >>
                                                         ELSE /\ pwTaken' = [pwTaken EXCEPT ![ww[self].d] = TRUE]
                                                              /\ IF strong[O(ww[self].d)] > 0
                                                                    THEN /\ strong' = [strong EXCEPT ![O(ww[self].d)] = strong[O(ww[self].d)] + 1]
                                                                         /\ jkind' = [jkind EXCEPT ![NewPoll(OpTab[ww[self].d].p)] = "fut"]
+                                                                        /\ pjLive' = [pjLive EXCEPT ![NewPoll(OpTab[ww[self].d].p)] = TRUE]
                                                                         /\ nextPoll' = [nextPoll EXCEPT ![OpTab[ww[self].d].p] = nextPoll[OpTab[ww[self].d].p] + 1]
                                                                         /\ /\ sj' = [sj EXCEPT ![self] = NewPoll(OpTab[ww[self].d].p)]
                                                                            /\ sq' = [sq EXCEPT ![self] = O(ww[self].d)]
@@ -1617,6 +1627,7 @@ wk_lock(self) == /\ pc[self] = "wk_lock"
                                                                         /\ UNCHANGED << jkind, 
                                                                                         strong, 
                                                                                         nextPoll, 
+                                                                                        pjLive, 
                                                                                         stack, 
                                                                                         sq, 
                                                                                         sj >>
@@ -1663,7 +1674,8 @@ wk_lock(self) == /\ pc[self] = "wk_lock"
                                                   /\ UNCHANGED << jkind, 
                                                                   strong, 
                                                                   pwTaken, 
-                                                                  nextPoll, sq, 
+                                                                  nextPoll, 
+                                                                  pjLive, sq, 
                                                                   sj >>
                                        /\ UNCHANGED << qstate, rq >>
                  /\ UNCHANGED << qpoll, jobs, wakeBlocked, schedule, pthreads, 
@@ -1704,12 +1716,12 @@ z_wk_second(self) == /\ pc[self] = "z_wk_second"
                                      ppNotify, ppNC, ppBP, ppDepth, ppAlive, 
                                      ppHeld, inItems, inClosed, inWaker, 
                                      pollFn, chuteFn, pwTaken, nextPoll, 
-                                     ppItem, h, dead, sti, rq, sq, sj, rsq, 
-                                     bown, bwk, bi, bcur, bw, bsp, jq, jj, jwk, 
-                                     fj, dq, dj, oq, oop, omode, oj, yq, yop, 
-                                     tq, top, af, wf, wop, sf, sctx, xf, cop, 
-                                     kj, pp, np, nbp, nres, dp, pf, pctx, pq, 
-                                     pj, pd, nq >>
+                                     ppItem, pjLive, h, dead, sti, rq, sq, sj, 
+                                     rsq, bown, bwk, bi, bcur, bw, bsp, jq, jj, 
+                                     jwk, fj, dq, dj, oq, oop, omode, oj, yq, 
+                                     yop, tq, top, af, wf, wop, sf, sctx, xf, 
+                                     cop, kj, pp, np, nbp, nres, dp, pf, pctx, 
+                                     pq, pj, pd, nq >>
 
 z_pw_after(self) == /\ pc[self] = "z_pw_after"
                     /\ strong' = [strong EXCEPT ![O(ww[self].d)] = strong[O(ww[self].d)] - 1]
@@ -1739,9 +1751,9 @@ z_pw_after(self) == /\ pc[self] = "z_pw_after"
                                     ppPending, ppClosed, ppNotify, ppNC, ppBP, 
                                     ppDepth, ppAlive, ppHeld, inItems, 
                                     inClosed, inWaker, pollFn, chuteFn, 
-                                    pwTaken, nextPoll, ppItem, h, dead, sti, 
-                                    rq, sq, sj, rsq, bown, bwk, bi, bcur, bw, 
-                                    bsp, jq, jj, jwk, fj, dq, dj, oq, oop, 
+                                    pwTaken, nextPoll, ppItem, pjLive, h, dead, 
+                                    sti, rq, sq, sj, rsq, bown, bwk, bi, bcur, 
+                                    bw, bsp, jq, jj, jwk, fj, dq, dj, oq, oop, 
                                     omode, oj, tq, top, af, wf, wop, sf, sctx, 
                                     xf, cop, kj, pp, np, nbp, nres, dp, pf, 
                                     pctx, pq, pj, pd, nq >>
@@ -1769,11 +1781,12 @@ pw_take(self) == /\ pc[self] = "pw_take"
                                  dsl, atomic, strong, ppPending, ppClosed, 
                                  ppNotify, ppNC, ppBP, ppDepth, ppAlive, 
                                  ppHeld, inItems, inClosed, inWaker, pwTaken, 
-                                 nextPoll, ppItem, h, dead, sti, rq, ww, rsq, 
-                                 bown, bwk, bi, bcur, bw, bsp, jq, jj, jwk, fj, 
-                                 dq, dj, oq, oop, omode, oj, yq, yop, tq, top, 
-                                 af, wf, wop, sf, sctx, xf, cop, kj, pp, np, 
-                                 nbp, nres, dp, pf, pctx, pq, pj, pd, nq >>
+                                 nextPoll, ppItem, pjLive, h, dead, sti, rq, 
+                                 ww, rsq, bown, bwk, bi, bcur, bw, bsp, jq, jj, 
+                                 jwk, fj, dq, dj, oq, oop, omode, oj, yq, yop, 
+                                 tq, top, af, wf, wop, sf, sctx, xf, cop, kj, 
+                                 pp, np, nbp, nres, dp, pf, pctx, pq, pj, pd, 
+                                 nq >>
 
 z_wk_ret(self) == /\ pc[self] = "z_wk_ret"
                   /\ pc' = [pc EXCEPT ![self] = Head(stack[self]).pc]
@@ -1790,12 +1803,12 @@ z_wk_ret(self) == /\ pc[self] = "z_wk_ret"
                                   dsl, atomic, strong, ppPending, ppClosed, 
                                   ppNotify, ppNC, ppBP, ppDepth, ppAlive, 
                                   ppHeld, inItems, inClosed, inWaker, pollFn, 
-                                  chuteFn, pwTaken, nextPoll, ppItem, h, dead, 
-                                  sti, rq, sq, sj, rsq, bown, bwk, bi, bcur, 
-                                  bw, bsp, jq, jj, jwk, fj, dq, dj, oq, oop, 
-                                  omode, oj, yq, yop, tq, top, af, wf, wop, sf, 
-                                  sctx, xf, cop, kj, pp, np, nbp, nres, dp, pf, 
-                                  pctx, pq, pj, pd, nq >>
+                                  chuteFn, pwTaken, nextPoll, ppItem, pjLive, 
+                                  h, dead, sti, rq, sq, sj, rsq, bown, bwk, bi, 
+                                  bcur, bw, bsp, jq, jj, jwk, fj, dq, dj, oq, 
+                                  oop, omode, oj, yq, yop, tq, top, af, wf, 
+                                  wop, sf, sctx, xf, cop, kj, pp, np, nbp, 
+                                  nres, dp, pf, pctx, pq, pj, pd, nq >>
 
 Wake(self) == wk_lock(self) \/ z_wk_second(self) \/ z_pw_after(self)
                  \/ pw_take(self) \/ z_wk_ret(self)
@@ -1829,12 +1842,12 @@ rb_step(self) == /\ pc[self] = "rb_step"
                                  dsl, atomic, strong, ppPending, ppClosed, 
                                  ppNotify, ppNC, ppBP, ppDepth, ppAlive, 
                                  ppHeld, inItems, inClosed, inWaker, pollFn, 
-                                 chuteFn, pwTaken, nextPoll, ppItem, stack, 
-                                 dead, sti, rq, sq, sj, ww, rsq, bown, bwk, bw, 
-                                 bsp, jq, jj, jwk, fj, dq, dj, oq, oop, omode, 
-                                 oj, yq, yop, tq, top, af, wf, wop, sf, sctx, 
-                                 xf, cop, kj, pp, np, nbp, nres, dp, pf, pctx, 
-                                 pq, pj, pd, nq >>
+                                 chuteFn, pwTaken, nextPoll, ppItem, pjLive, 
+                                 stack, dead, sti, rq, sq, sj, ww, rsq, bown, 
+                                 bwk, bw, bsp, jq, jj, jwk, fj, dq, dj, oq, 
+                                 oop, omode, oj, yq, yop, tq, top, af, wf, wop, 
+                                 sf, sctx, xf, cop, kj, pp, np, nbp, nres, dp, 
+                                 pf, pctx, pq, pj, pd, nq >>
 
 z_finish(self) == /\ pc[self] = "z_finish"
                   /\ IF bown[self] = 0
@@ -1930,10 +1943,11 @@ z_finish(self) == /\ pc[self] = "z_finish"
                                   ppClosed, ppNotify, ppNC, ppBP, ppDepth, 
                                   ppAlive, ppHeld, inItems, inClosed, inWaker, 
                                   pollFn, chuteFn, pwTaken, nextPoll, ppItem, 
-                                  dead, sti, rq, sq, sj, ww, jq, jj, jwk, fj, 
-                                  dq, dj, oq, oop, omode, oj, yq, yop, tq, top, 
-                                  af, wf, wop, sf, sctx, xf, cop, kj, pp, np, 
-                                  nbp, nres, dp, pf, pctx, pq, pj, pd, nq >>
+                                  pjLive, dead, sti, rq, sq, sj, ww, jq, jj, 
+                                  jwk, fj, dq, dj, oq, oop, omode, oj, yq, yop, 
+                                  tq, top, af, wf, wop, sf, sctx, xf, cop, kj, 
+                                  pp, np, nbp, nres, dp, pf, pctx, pq, pj, pd, 
+                                  nq >>
 
 z_pollaw(self) == /\ pc[self] = "z_pollaw"
                   /\ IF K(0 - AwItem(bown[self])) = "fsync"
@@ -1972,10 +1986,10 @@ z_pollaw(self) == /\ pc[self] = "z_pollaw"
                                   dsl, atomic, strong, ppPending, ppClosed, 
                                   ppNotify, ppNC, ppBP, ppDepth, ppAlive, 
                                   ppHeld, inItems, inClosed, inWaker, pollFn, 
-                                  chuteFn, pwTaken, nextPoll, ppItem, h, dead, 
-                                  sti, rq, sq, sj, ww, rsq, bown, bwk, bi, 
-                                  bcur, bw, bsp, jq, jj, jwk, fj, dq, dj, oq, 
-                                  oop, omode, oj, yq, yop, tq, top, af, wf, 
+                                  chuteFn, pwTaken, nextPoll, ppItem, pjLive, 
+                                  h, dead, sti, rq, sq, sj, ww, rsq, bown, bwk, 
+                                  bi, bcur, bw, bsp, jq, jj, jwk, fj, dq, dj, 
+                                  oq, oop, omode, oj, yq, yop, tq, top, af, wf, 
                                   wop, xf, cop, kj, pp, np, nbp, nres, dp, nq >>
 
 z_pollaw_after(self) == /\ pc[self] = "z_pollaw_after"
@@ -2011,11 +2025,11 @@ z_pollaw_after(self) == /\ pc[self] = "z_pollaw_after"
                                         ppNC, ppBP, ppDepth, ppAlive, ppHeld, 
                                         inItems, inClosed, inWaker, pollFn, 
                                         chuteFn, pwTaken, nextPoll, ppItem, 
-                                        dead, sti, rq, sq, sj, ww, jq, jj, jwk, 
-                                        fj, dq, dj, oq, oop, omode, oj, yq, 
-                                        yop, tq, top, af, wf, wop, sf, sctx, 
-                                        xf, cop, kj, pp, np, nbp, nres, dp, pf, 
-                                        pctx, pq, pj, pd, nq >>
+                                        pjLive, dead, sti, rq, sq, sj, ww, jq, 
+                                        jj, jwk, fj, dq, dj, oq, oop, omode, 
+                                        oj, yq, yop, tq, top, af, wf, wop, sf, 
+                                        sctx, xf, cop, kj, pp, np, nbp, nres, 
+                                        dp, pf, pctx, pq, pj, pd, nq >>
 
 rb_block(self) == /\ pc[self] = "rb_block"
                   /\ parkTok[self]
@@ -2032,12 +2046,12 @@ rb_block(self) == /\ pc[self] = "rb_block"
                                   atomic, strong, ppPending, ppClosed, 
                                   ppNotify, ppNC, ppBP, ppDepth, ppAlive, 
                                   ppHeld, inItems, inClosed, inWaker, pollFn, 
-                                  chuteFn, pwTaken, nextPoll, ppItem, h, stack, 
-                                  dead, sti, rq, sq, sj, ww, rsq, bown, bwk, 
-                                  bi, bcur, bw, bsp, jq, jj, jwk, fj, dq, dj, 
-                                  oq, oop, omode, oj, yq, yop, tq, top, af, wf, 
-                                  wop, sf, sctx, xf, cop, kj, pp, np, nbp, 
-                                  nres, dp, pf, pctx, pq, pj, pd, nq >>
+                                  chuteFn, pwTaken, nextPoll, ppItem, pjLive, 
+                                  h, stack, dead, sti, rq, sq, sj, ww, rsq, 
+                                  bown, bwk, bi, bcur, bw, bsp, jq, jj, jwk, 
+                                  fj, dq, dj, oq, oop, omode, oj, yq, yop, tq, 
+                                  top, af, wf, wop, sf, sctx, xf, cop, kj, pp, 
+                                  np, nbp, nres, dp, pf, pctx, pq, pj, pd, nq >>
 
 z_dispatch(self) == /\ pc[self] = "z_dispatch"
                     /\ IF K(bcur[self]) = "desync"
@@ -2608,9 +2622,10 @@ z_dispatch(self) == /\ pc[self] = "z_dispatch"
                                     dnState, dnWaker, rwb, rneed, dsl, atomic, 
                                     ppPending, ppClosed, ppNotify, ppNC, ppBP, 
                                     ppDepth, ppAlive, ppHeld, pollFn, chuteFn, 
-                                    pwTaken, nextPoll, ppItem, dead, sti, rq, 
-                                    rsq, bown, bwk, bi, bcur, jq, jj, jwk, fj, 
-                                    dq, dj, oq, oop, omode, oj, kj, pp, nq >>
+                                    pwTaken, nextPoll, ppItem, pjLive, dead, 
+                                    sti, rq, rsq, bown, bwk, bi, bcur, jq, jj, 
+                                    jwk, fj, dq, dj, oq, oop, omode, oj, kj, 
+                                    pp, nq >>
 
 z_then(self) == /\ pc[self] = "z_then"
                 /\ IF rv[self] = 0 /\ OpTab[bcur[self]].then = "await"
@@ -2642,11 +2657,11 @@ z_then(self) == /\ pc[self] = "z_then"
                                 atomic, strong, ppPending, ppClosed, ppNotify, 
                                 ppNC, ppBP, ppDepth, ppAlive, ppHeld, inItems, 
                                 inClosed, inWaker, pollFn, chuteFn, pwTaken, 
-                                nextPoll, ppItem, h, dead, sti, rq, sq, sj, ww, 
-                                rsq, bown, bwk, bi, bcur, bw, bsp, jq, jj, jwk, 
-                                fj, dq, dj, oq, oop, omode, oj, yq, yop, tq, 
-                                top, wf, wop, sf, sctx, cop, kj, pp, np, nbp, 
-                                nres, dp, pf, pctx, pq, pj, pd, nq >>
+                                nextPoll, ppItem, pjLive, h, dead, sti, rq, sq, 
+                                sj, ww, rsq, bown, bwk, bi, bcur, bw, bsp, jq, 
+                                jj, jwk, fj, dq, dj, oq, oop, omode, oj, yq, 
+                                yop, tq, top, wf, wop, sf, sctx, cop, kj, pp, 
+                                np, nbp, nres, dp, pf, pctx, pq, pj, pd, nq >>
 
 z_polled(self) == /\ pc[self] = "z_polled"
                   /\ IF rv[self] \in {0, 3, 4}
@@ -2665,11 +2680,11 @@ z_polled(self) == /\ pc[self] = "z_polled"
                                   dsl, atomic, strong, ppPending, ppClosed, 
                                   ppNotify, ppNC, ppBP, ppDepth, ppAlive, 
                                   ppHeld, inItems, inClosed, inWaker, pollFn, 
-                                  chuteFn, pwTaken, nextPoll, ppItem, stack, 
-                                  dead, sti, rq, sq, sj, ww, rsq, bown, bwk, 
-                                  bi, bcur, bw, bsp, jq, jj, jwk, fj, dq, dj, 
-                                  oq, oop, omode, oj, yq, yop, tq, top, af, wf, 
-                                  wop, sf, sctx, xf, cop, kj, pp, np, nbp, 
+                                  chuteFn, pwTaken, nextPoll, ppItem, pjLive, 
+                                  stack, dead, sti, rq, sq, sj, ww, rsq, bown, 
+                                  bwk, bi, bcur, bw, bsp, jq, jj, jwk, fj, dq, 
+                                  dj, oq, oop, omode, oj, yq, yop, tq, top, af, 
+                                  wf, wop, sf, sctx, xf, cop, kj, pp, np, nbp, 
                                   nres, dp, pf, pctx, pq, pj, pd, nq >>
 
 pp_setdepth(self) == /\ pc[self] = "pp_setdepth"
@@ -2688,13 +2703,13 @@ pp_setdepth(self) == /\ pc[self] = "pp_setdepth"
                                      dsl, atomic, strong, ppPending, ppClosed, 
                                      ppNotify, ppNC, ppBP, ppAlive, ppHeld, 
                                      inItems, inClosed, inWaker, pollFn, 
-                                     chuteFn, pwTaken, nextPoll, ppItem, h, 
-                                     stack, dead, sti, rq, sq, sj, ww, rsq, 
-                                     bown, bwk, bi, bcur, bw, bsp, jq, jj, jwk, 
-                                     fj, dq, dj, oq, oop, omode, oj, yq, yop, 
-                                     tq, top, af, wf, wop, sf, sctx, xf, cop, 
-                                     kj, pp, np, nbp, nres, dp, pf, pctx, pq, 
-                                     pj, pd, nq >>
+                                     chuteFn, pwTaken, nextPoll, ppItem, 
+                                     pjLive, h, stack, dead, sti, rq, sq, sj, 
+                                     ww, rsq, bown, bwk, bi, bcur, bw, bsp, jq, 
+                                     jj, jwk, fj, dq, dj, oq, oop, omode, oj, 
+                                     yq, yop, tq, top, af, wf, wop, sf, sctx, 
+                                     xf, cop, kj, pp, np, nbp, nres, dp, pf, 
+                                     pctx, pq, pj, pd, nq >>
 
 z_spur(self) == /\ pc[self] = "z_spur"
                 /\ IF bsp[self] = << >>
@@ -2724,11 +2739,11 @@ z_spur(self) == /\ pc[self] = "z_spur"
                                 strong, ppPending, ppClosed, ppNotify, ppNC, 
                                 ppBP, ppDepth, ppAlive, ppHeld, inItems, 
                                 inClosed, inWaker, pollFn, chuteFn, pwTaken, 
-                                nextPoll, ppItem, h, dead, sti, rq, sq, sj, 
-                                rsq, bown, bwk, bi, bcur, jq, jj, jwk, fj, dq, 
-                                dj, oq, oop, omode, oj, yq, yop, tq, top, af, 
-                                wf, wop, sf, sctx, xf, cop, kj, pp, np, nbp, 
-                                nres, dp, pf, pctx, pq, pj, pd, nq >>
+                                nextPoll, ppItem, pjLive, h, dead, sti, rq, sq, 
+                                sj, rsq, bown, bwk, bi, bcur, jq, jj, jwk, fj, 
+                                dq, dj, oq, oop, omode, oj, yq, yop, tq, top, 
+                                af, wf, wop, sf, sctx, xf, cop, kj, pp, np, 
+                                nbp, nres, dp, pf, pctx, pq, pj, pd, nq >>
 
 rb_wait(self) == /\ pc[self] = "rb_wait"
                  /\ parkTok[self]
@@ -2749,12 +2764,12 @@ rb_wait(self) == /\ pc[self] = "rb_wait"
                                  strong, ppPending, ppClosed, ppNotify, ppNC, 
                                  ppBP, ppDepth, ppAlive, ppHeld, inItems, 
                                  inClosed, inWaker, pollFn, chuteFn, pwTaken, 
-                                 nextPoll, ppItem, h, stack, dead, sti, rq, sq, 
-                                 sj, ww, rsq, bown, bwk, bi, bcur, bw, bsp, jq, 
-                                 jj, jwk, fj, dq, dj, oq, oop, omode, oj, yq, 
-                                 yop, tq, top, af, wf, wop, sf, sctx, xf, cop, 
-                                 kj, pp, np, nbp, nres, dp, pf, pctx, pq, pj, 
-                                 pd, nq >>
+                                 nextPoll, ppItem, pjLive, h, stack, dead, sti, 
+                                 rq, sq, sj, ww, rsq, bown, bwk, bi, bcur, bw, 
+                                 bsp, jq, jj, jwk, fj, dq, dj, oq, oop, omode, 
+                                 oj, yq, yop, tq, top, af, wf, wop, sf, sctx, 
+                                 xf, cop, kj, pp, np, nbp, nres, dp, pf, pctx, 
+                                 pq, pj, pd, nq >>
 
 mx_set(self) == /\ pc[self] = "mx_set"
                 /\ maxThreads' = OpTab[bcur[self]].n
@@ -2772,12 +2787,12 @@ mx_set(self) == /\ pc[self] = "mx_set"
                                 strong, ppPending, ppClosed, ppNotify, ppNC, 
                                 ppBP, ppDepth, ppAlive, ppHeld, inItems, 
                                 inClosed, inWaker, pollFn, chuteFn, pwTaken, 
-                                nextPoll, ppItem, stack, dead, sti, rq, sq, sj, 
-                                ww, rsq, bown, bwk, bi, bcur, bw, bsp, jq, jj, 
-                                jwk, fj, dq, dj, oq, oop, omode, oj, yq, yop, 
-                                tq, top, af, wf, wop, sf, sctx, xf, cop, kj, 
-                                pp, np, nbp, nres, dp, pf, pctx, pq, pj, pd, 
-                                nq >>
+                                nextPoll, ppItem, pjLive, stack, dead, sti, rq, 
+                                sq, sj, ww, rsq, bown, bwk, bi, bcur, bw, bsp, 
+                                jq, jj, jwk, fj, dq, dj, oq, oop, omode, oj, 
+                                yq, yop, tq, top, af, wf, wop, sf, sctx, xf, 
+                                cop, kj, pp, np, nbp, nres, dp, pf, pctx, pq, 
+                                pj, pd, nq >>
 
 RunOps(self) == rb_step(self) \/ z_finish(self) \/ z_pollaw(self)
                    \/ z_pollaw_after(self) \/ rb_block(self)
@@ -3126,10 +3141,11 @@ z_rj(self) == /\ pc[self] = "z_rj"
                               dnState, dnWaker, rwb, rneed, dsl, atomic, 
                               ppPending, ppClosed, ppNotify, ppNC, ppBP, 
                               ppDepth, ppAlive, ppHeld, inItems, inClosed, 
-                              inWaker, pollFn, pwTaken, nextPoll, ppItem, dead, 
-                              sti, rq, sq, sj, fj, dq, dj, oq, oop, omode, oj, 
-                              tq, top, af, wf, wop, sf, sctx, xf, cop, np, nbp, 
-                              nres, dp, pf, pctx, pq, pj, pd, nq >>
+                              inWaker, pollFn, pwTaken, nextPoll, ppItem, 
+                              pjLive, dead, sti, rq, sq, sj, fj, dq, dj, oq, 
+                              oop, omode, oj, tq, top, af, wf, wop, sf, sctx, 
+                              xf, cop, np, nbp, nres, dp, pf, pctx, pq, pj, pd, 
+                              nq >>
 
 z_rj_ret(self) == /\ pc[self] = "z_rj_ret"
                   /\ pc' = [pc EXCEPT ![self] = Head(stack[self]).pc]
@@ -3148,12 +3164,12 @@ z_rj_ret(self) == /\ pc[self] = "z_rj_ret"
                                   dsl, atomic, strong, ppPending, ppClosed, 
                                   ppNotify, ppNC, ppBP, ppDepth, ppAlive, 
                                   ppHeld, inItems, inClosed, inWaker, pollFn, 
-                                  chuteFn, pwTaken, nextPoll, ppItem, h, dead, 
-                                  sti, rq, sq, sj, ww, rsq, bown, bwk, bi, 
-                                  bcur, bw, bsp, fj, dq, dj, oq, oop, omode, 
-                                  oj, yq, yop, tq, top, af, wf, wop, sf, sctx, 
-                                  xf, cop, kj, pp, np, nbp, nres, dp, pf, pctx, 
-                                  pq, pj, pd, nq >>
+                                  chuteFn, pwTaken, nextPoll, ppItem, pjLive, 
+                                  h, dead, sti, rq, sq, sj, ww, rsq, bown, bwk, 
+                                  bi, bcur, bw, bsp, fj, dq, dj, oq, oop, 
+                                  omode, oj, yq, yop, tq, top, af, wf, wop, sf, 
+                                  sctx, xf, cop, kj, pp, np, nbp, nres, dp, pf, 
+                                  pctx, pq, pj, pd, nq >>
 
 z_rj_ok(self) == /\ pc[self] = "z_rj_ok"
                  /\ rv' = [rv EXCEPT ![self] = 0]
@@ -3173,20 +3189,24 @@ z_rj_ok(self) == /\ pc[self] = "z_rj_ok"
                                  atomic, strong, ppPending, ppClosed, ppNotify, 
                                  ppNC, ppBP, ppDepth, ppAlive, ppHeld, inItems, 
                                  inClosed, inWaker, pollFn, chuteFn, pwTaken, 
-                                 nextPoll, ppItem, h, dead, sti, rq, sq, sj, 
-                                 ww, rsq, bown, bwk, bi, bcur, bw, bsp, fj, dq, 
-                                 dj, oq, oop, omode, oj, yq, yop, tq, top, af, 
-                                 wf, wop, sf, sctx, xf, cop, kj, pp, np, nbp, 
-                                 nres, dp, pf, pctx, pq, pj, pd, nq >>
+                                 nextPoll, ppItem, pjLive, h, dead, sti, rq, 
+                                 sq, sj, ww, rsq, bown, bwk, bi, bcur, bw, bsp, 
+                                 fj, dq, dj, oq, oop, omode, oj, yq, yop, tq, 
+                                 top, af, wf, wop, sf, sctx, xf, cop, kj, pp, 
+                                 np, nbp, nres, dp, pf, pctx, pq, pj, pd, nq >>
 
 z_pp_gc(self) == /\ pc[self] = "z_pp_gc"
                  /\ IF pollFn[OpTab[jj[self]].p] /\ rv[self] = 0 /\ ~(\/ HoldsCtx(inWaker[OpTab[jj[self]].p])
                                                                       \/ (CoreAlive(OpTab[jj[self]].p) /\ (HoldsCtx(ppNC[OpTab[jj[self]].p]) \/ HoldsCtx(ppBP[OpTab[jj[self]].p])))
-                                                                      \/ \E j \in PollJobs(OpTab[jj[self]].p) \ {jj[self]} : jkind[j] = "fut" /\ fres[j] = "none")
+                                                                      \/ \E j \in PollJobs(OpTab[jj[self]].p) \ {jj[self]} : pjLive[j])
                        THEN /\ pollFn' = [pollFn EXCEPT ![OpTab[jj[self]].p] = FALSE]
                             /\ h' = PFlag(PFlag(h, OpTab[jj[self]].p, "in_dropped"), OpTab[jj[self]].p, "closure_dropped")
                        ELSE /\ TRUE
                             /\ UNCHANGED << pollFn, h >>
+                 /\ IF rv[self] # 5
+                       THEN /\ pjLive' = [pjLive EXCEPT ![jj[self]] = FALSE]
+                       ELSE /\ TRUE
+                            /\ UNCHANGED pjLive
                  /\ pc' = [pc EXCEPT ![self] = Head(stack[self]).pc]
                  /\ jq' = [jq EXCEPT ![self] = Head(stack[self]).jq]
                  /\ jj' = [jj EXCEPT ![self] = Head(stack[self]).jj]
@@ -3236,11 +3256,11 @@ z_slot2(self) == /\ pc[self] = "z_slot2"
                                  strong, ppPending, ppClosed, ppNotify, ppNC, 
                                  ppBP, ppDepth, ppAlive, ppHeld, inItems, 
                                  inClosed, inWaker, pollFn, chuteFn, pwTaken, 
-                                 nextPoll, ppItem, h, dead, sti, rq, sq, sj, 
-                                 ww, rsq, bown, bwk, bi, bcur, bw, bsp, fj, dq, 
-                                 dj, oq, oop, omode, oj, yq, yop, tq, top, af, 
-                                 wf, wop, sf, sctx, xf, cop, kj, pp, np, nbp, 
-                                 nres, dp, pf, pctx, pq, pj, pd, nq >>
+                                 nextPoll, ppItem, pjLive, h, dead, sti, rq, 
+                                 sq, sj, ww, rsq, bown, bwk, bi, bcur, bw, bsp, 
+                                 fj, dq, dj, oq, oop, omode, oj, yq, yop, tq, 
+                                 top, af, wf, wop, sf, sctx, xf, cop, kj, pp, 
+                                 np, nbp, nres, dp, pf, pctx, pq, pj, pd, nq >>
 
 sus_signal(self) == /\ pc[self] = "sus_signal"
                     /\ LET w == fwaker[jj[self]] IN
@@ -3269,12 +3289,12 @@ sus_signal(self) == /\ pc[self] = "sus_signal"
                                     ppClosed, ppNotify, ppNC, ppBP, ppDepth, 
                                     ppAlive, ppHeld, inItems, inClosed, 
                                     inWaker, pollFn, chuteFn, pwTaken, 
-                                    nextPoll, ppItem, h, dead, sti, rq, sq, sj, 
-                                    rsq, bown, bwk, bi, bcur, bw, bsp, jq, jj, 
-                                    jwk, fj, dq, dj, oq, oop, omode, oj, yq, 
-                                    yop, tq, top, af, wf, wop, sf, sctx, xf, 
-                                    cop, kj, pp, np, nbp, nres, dp, pf, pctx, 
-                                    pq, pj, pd, nq >>
+                                    nextPoll, ppItem, pjLive, h, dead, sti, rq, 
+                                    sq, sj, rsq, bown, bwk, bi, bcur, bw, bsp, 
+                                    jq, jj, jwk, fj, dq, dj, oq, oop, omode, 
+                                    oj, yq, yop, tq, top, af, wf, wop, sf, 
+                                    sctx, xf, cop, kj, pp, np, nbp, nres, dp, 
+                                    pf, pctx, pq, pj, pd, nq >>
 
 sus_sigdrop(self) == /\ pc[self] = "sus_sigdrop"
                      /\ jaw' = [jaw EXCEPT ![jj[self]] = 1]
@@ -3300,12 +3320,12 @@ sus_sigdrop(self) == /\ pc[self] = "sus_sigdrop"
                                      strong, ppPending, ppClosed, ppNotify, 
                                      ppNC, ppBP, ppDepth, ppAlive, ppHeld, 
                                      inItems, inClosed, inWaker, pollFn, 
-                                     chuteFn, pwTaken, nextPoll, ppItem, h, 
-                                     dead, sti, rq, sq, sj, ww, rsq, bown, bwk, 
-                                     bi, bcur, bw, bsp, fj, dq, dj, oq, oop, 
-                                     omode, oj, yq, yop, tq, top, af, wf, wop, 
-                                     sf, sctx, xf, cop, kj, pp, np, nbp, nres, 
-                                     dp, pf, pctx, pq, pj, pd, nq >>
+                                     chuteFn, pwTaken, nextPoll, ppItem, 
+                                     pjLive, h, dead, sti, rq, sq, sj, ww, rsq, 
+                                     bown, bwk, bi, bcur, bw, bsp, fj, dq, dj, 
+                                     oq, oop, omode, oj, yq, yop, tq, top, af, 
+                                     wf, wop, sf, sctx, xf, cop, kj, pp, np, 
+                                     nbp, nres, dp, pf, pctx, pq, pj, pd, nq >>
 
 sus_inner(self) == /\ pc[self] = "sus_inner"
                    /\ TRUE
@@ -3322,12 +3342,12 @@ sus_inner(self) == /\ pc[self] = "sus_inner"
                                    strong, ppPending, ppClosed, ppNotify, ppNC, 
                                    ppBP, ppDepth, ppAlive, ppHeld, inItems, 
                                    inClosed, inWaker, pollFn, chuteFn, pwTaken, 
-                                   nextPoll, ppItem, h, stack, dead, sti, rq, 
-                                   sq, sj, ww, rsq, bown, bwk, bi, bcur, bw, 
-                                   bsp, jq, jj, jwk, fj, dq, dj, oq, oop, 
-                                   omode, oj, yq, yop, tq, top, af, wf, wop, 
-                                   sf, sctx, xf, cop, kj, pp, np, nbp, nres, 
-                                   dp, pf, pctx, pq, pj, pd, nq >>
+                                   nextPoll, ppItem, pjLive, h, stack, dead, 
+                                   sti, rq, sq, sj, ww, rsq, bown, bwk, bi, 
+                                   bcur, bw, bsp, jq, jj, jwk, fj, dq, dj, oq, 
+                                   oop, omode, oj, yq, yop, tq, top, af, wf, 
+                                   wop, sf, sctx, xf, cop, kj, pp, np, nbp, 
+                                   nres, dp, pf, pctx, pq, pj, pd, nq >>
 
 sus_innerdrop(self) == /\ pc[self] = "sus_innerdrop"
                        /\ rv' = [rv EXCEPT ![self] = 0]
@@ -3349,12 +3369,13 @@ sus_innerdrop(self) == /\ pc[self] = "sus_innerdrop"
                                        strong, ppPending, ppClosed, ppNotify, 
                                        ppNC, ppBP, ppDepth, ppAlive, ppHeld, 
                                        inItems, inClosed, inWaker, pollFn, 
-                                       chuteFn, pwTaken, nextPoll, ppItem, h, 
-                                       dead, sti, rq, sq, sj, ww, rsq, bown, 
-                                       bwk, bi, bcur, bw, bsp, fj, dq, dj, oq, 
-                                       oop, omode, oj, yq, yop, tq, top, af, 
-                                       wf, wop, sf, sctx, xf, cop, kj, pp, np, 
-                                       nbp, nres, dp, pf, pctx, pq, pj, pd, nq >>
+                                       chuteFn, pwTaken, nextPoll, ppItem, 
+                                       pjLive, h, dead, sti, rq, sq, sj, ww, 
+                                       rsq, bown, bwk, bi, bcur, bw, bsp, fj, 
+                                       dq, dj, oq, oop, omode, oj, yq, yop, tq, 
+                                       top, af, wf, wop, sf, sctx, xf, cop, kj, 
+                                       pp, np, nbp, nres, dp, pf, pctx, pq, pj, 
+                                       pd, nq >>
 
 ws_take(self) == /\ pc[self] = "ws_take"
                  /\ IF fres[OpTab[jj[self]].f] = "some"
@@ -3385,11 +3406,11 @@ ws_take(self) == /\ pc[self] = "ws_take"
                                  strong, ppPending, ppClosed, ppNotify, ppNC, 
                                  ppBP, ppDepth, ppAlive, ppHeld, inItems, 
                                  inClosed, inWaker, pollFn, chuteFn, pwTaken, 
-                                 nextPoll, ppItem, h, dead, sti, rq, sq, sj, 
-                                 ww, rsq, bown, bwk, bi, bcur, bw, bsp, fj, dq, 
-                                 dj, oq, oop, omode, oj, yq, yop, tq, top, af, 
-                                 wf, wop, sf, sctx, xf, cop, kj, pp, np, nbp, 
-                                 nres, dp, pf, pctx, pq, pj, pd, nq >>
+                                 nextPoll, ppItem, pjLive, h, dead, sti, rq, 
+                                 sq, sj, ww, rsq, bown, bwk, bi, bcur, bw, bsp, 
+                                 fj, dq, dj, oq, oop, omode, oj, yq, yop, tq, 
+                                 top, af, wf, wop, sf, sctx, xf, cop, kj, pp, 
+                                 np, nbp, nres, dp, pf, pctx, pq, pj, pd, nq >>
 
 RunJob(self) == z_rj(self) \/ z_rj_ret(self) \/ z_rj_ok(self)
                    \/ z_pp_gc(self) \/ z_slot2(self) \/ sus_signal(self)
@@ -3429,12 +3450,12 @@ fj_lock(self) == /\ pc[self] = "fj_lock"
                                  rneed, dsl, atomic, strong, ppPending, 
                                  ppClosed, ppNotify, ppNC, ppBP, ppDepth, 
                                  ppAlive, ppHeld, inItems, inClosed, inWaker, 
-                                 pollFn, chuteFn, pwTaken, nextPoll, ppItem, h, 
-                                 dead, sti, rq, sq, sj, rsq, bown, bwk, bi, 
-                                 bcur, bw, bsp, jq, jj, jwk, dq, dj, oq, oop, 
-                                 omode, oj, yq, yop, tq, top, af, wf, wop, sf, 
-                                 sctx, xf, cop, kj, pp, np, nbp, nres, dp, pf, 
-                                 pctx, pq, pj, pd, nq >>
+                                 pollFn, chuteFn, pwTaken, nextPoll, ppItem, 
+                                 pjLive, h, dead, sti, rq, sq, sj, rsq, bown, 
+                                 bwk, bi, bcur, bw, bsp, jq, jj, jwk, dq, dj, 
+                                 oq, oop, omode, oj, yq, yop, tq, top, af, wf, 
+                                 wop, sf, sctx, xf, cop, kj, pp, np, nbp, nres, 
+                                 dp, pf, pctx, pq, pj, pd, nq >>
 
 z_fj_chk(self) == /\ pc[self] = "z_fj_chk"
                   /\ IF jpanic[fj[self]] /\ jkind[fj[self]] = "fut"
@@ -3454,12 +3475,12 @@ z_fj_chk(self) == /\ pc[self] = "z_fj_chk"
                                   dsl, atomic, strong, ppPending, ppClosed, 
                                   ppNotify, ppNC, ppBP, ppDepth, ppAlive, 
                                   ppHeld, inItems, inClosed, inWaker, pollFn, 
-                                  chuteFn, pwTaken, nextPoll, ppItem, h, dead, 
-                                  sti, rq, sq, sj, ww, rsq, bown, bwk, bi, 
-                                  bcur, bw, bsp, jq, jj, jwk, dq, dj, oq, oop, 
-                                  omode, oj, yq, yop, tq, top, af, wf, wop, sf, 
-                                  sctx, xf, cop, kj, pp, np, nbp, nres, dp, pf, 
-                                  pctx, pq, pj, pd, nq >>
+                                  chuteFn, pwTaken, nextPoll, ppItem, pjLive, 
+                                  h, dead, sti, rq, sq, sj, ww, rsq, bown, bwk, 
+                                  bi, bcur, bw, bsp, jq, jj, jwk, dq, dj, oq, 
+                                  oop, omode, oj, yq, yop, tq, top, af, wf, 
+                                  wop, sf, sctx, xf, cop, kj, pp, np, nbp, 
+                                  nres, dp, pf, pctx, pq, pj, pd, nq >>
 
 fj_sigdrop(self) == /\ pc[self] = "fj_sigdrop"
                     /\ pc' = [pc EXCEPT ![self] = Head(stack[self]).pc]
@@ -3477,12 +3498,12 @@ fj_sigdrop(self) == /\ pc[self] = "fj_sigdrop"
                                     strong, ppPending, ppClosed, ppNotify, 
                                     ppNC, ppBP, ppDepth, ppAlive, ppHeld, 
                                     inItems, inClosed, inWaker, pollFn, 
-                                    chuteFn, pwTaken, nextPoll, ppItem, h, 
-                                    dead, sti, rq, sq, sj, ww, rsq, bown, bwk, 
-                                    bi, bcur, bw, bsp, jq, jj, jwk, dq, dj, oq, 
-                                    oop, omode, oj, yq, yop, tq, top, af, wf, 
-                                    wop, sf, sctx, xf, cop, kj, pp, np, nbp, 
-                                    nres, dp, pf, pctx, pq, pj, pd, nq >>
+                                    chuteFn, pwTaken, nextPoll, ppItem, pjLive, 
+                                    h, dead, sti, rq, sq, sj, ww, rsq, bown, 
+                                    bwk, bi, bcur, bw, bsp, jq, jj, jwk, dq, 
+                                    dj, oq, oop, omode, oj, yq, yop, tq, top, 
+                                    af, wf, wop, sf, sctx, xf, cop, kj, pp, np, 
+                                    nbp, nres, dp, pf, pctx, pq, pj, pd, nq >>
 
 FinishJob(self) == fj_lock(self) \/ z_fj_chk(self) \/ fj_sigdrop(self)
 
@@ -3513,11 +3534,11 @@ pd_deq(self) == /\ pc[self] = "pd_deq"
                                 strong, ppPending, ppClosed, ppNotify, ppNC, 
                                 ppBP, ppDepth, ppAlive, ppHeld, inItems, 
                                 inClosed, inWaker, pollFn, chuteFn, pwTaken, 
-                                nextPoll, ppItem, h, dead, sti, rq, sq, sj, ww, 
-                                rsq, bown, bwk, bi, bcur, bw, bsp, fj, dq, oq, 
-                                oop, omode, oj, yq, yop, tq, top, af, wf, wop, 
-                                sf, sctx, xf, cop, kj, pp, np, nbp, nres, dp, 
-                                pf, pctx, pq, pj, pd, nq >>
+                                nextPoll, ppItem, pjLive, h, dead, sti, rq, sq, 
+                                sj, ww, rsq, bown, bwk, bi, bcur, bw, bsp, fj, 
+                                dq, oq, oop, omode, oj, yq, yop, tq, top, af, 
+                                wf, wop, sf, sctx, xf, cop, kj, pp, np, nbp, 
+                                nres, dp, pf, pctx, pq, pj, pd, nq >>
 
 z_pd_after(self) == /\ pc[self] = "z_pd_after"
                     /\ IF rv[self] = 5
@@ -3554,12 +3575,12 @@ z_pd_after(self) == /\ pc[self] = "z_pd_after"
                                     strong, ppPending, ppClosed, ppNotify, 
                                     ppNC, ppBP, ppDepth, ppAlive, ppHeld, 
                                     inItems, inClosed, inWaker, pollFn, 
-                                    chuteFn, pwTaken, nextPoll, ppItem, h, 
-                                    dead, sti, rq, sq, sj, ww, rsq, bown, bwk, 
-                                    bi, bcur, bw, bsp, jq, jj, jwk, dq, dj, oq, 
-                                    oop, omode, oj, yq, yop, tq, top, af, wf, 
-                                    wop, sf, sctx, xf, cop, kj, pp, np, nbp, 
-                                    nres, dp, pf, pctx, pq, pj, pd, nq >>
+                                    chuteFn, pwTaken, nextPoll, ppItem, pjLive, 
+                                    h, dead, sti, rq, sq, sj, ww, rsq, bown, 
+                                    bwk, bi, bcur, bw, bsp, jq, jj, jwk, dq, 
+                                    dj, oq, oop, omode, oj, yq, yop, tq, top, 
+                                    af, wf, wop, sf, sctx, xf, cop, kj, pp, np, 
+                                    nbp, nres, dp, pf, pctx, pq, pj, pd, nq >>
 
 pd_requeue(self) == /\ pc[self] = "pd_requeue"
                     /\ jobs' = [jobs EXCEPT ![dq[self]] = << dj[self] >> \o jobs[dq[self]]]
@@ -3576,8 +3597,8 @@ pd_requeue(self) == /\ pc[self] = "pd_requeue"
                                     strong, ppPending, ppClosed, ppNotify, 
                                     ppNC, ppBP, ppDepth, ppAlive, ppHeld, 
                                     inItems, inClosed, inWaker, pollFn, 
-                                    chuteFn, pwTaken, nextPoll, ppItem, h, 
-                                    stack, dead, sti, rq, sq, sj, ww, rsq, 
+                                    chuteFn, pwTaken, nextPoll, ppItem, pjLive, 
+                                    h, stack, dead, sti, rq, sq, sj, ww, rsq, 
                                     bown, bwk, bi, bcur, bw, bsp, jq, jj, jwk, 
                                     fj, dq, dj, oq, oop, omode, oj, yq, yop, 
                                     tq, top, af, wf, wop, sf, sctx, xf, cop, 
@@ -3609,11 +3630,12 @@ pd_park(self) == /\ pc[self] = "pd_park"
                                  atomic, strong, ppPending, ppClosed, ppNotify, 
                                  ppNC, ppBP, ppDepth, ppAlive, ppHeld, inItems, 
                                  inClosed, inWaker, pollFn, chuteFn, pwTaken, 
-                                 nextPoll, ppItem, h, dead, sti, rq, sq, sj, 
-                                 ww, rsq, bown, bwk, bi, bcur, bw, bsp, jq, jj, 
-                                 jwk, fj, oq, oop, omode, oj, yq, yop, tq, top, 
-                                 af, wf, wop, sf, sctx, xf, cop, kj, pp, np, 
-                                 nbp, nres, dp, pf, pctx, pq, pj, pd, nq >>
+                                 nextPoll, ppItem, pjLive, h, dead, sti, rq, 
+                                 sq, sj, ww, rsq, bown, bwk, bi, bcur, bw, bsp, 
+                                 jq, jj, jwk, fj, oq, oop, omode, oj, yq, yop, 
+                                 tq, top, af, wf, wop, sf, sctx, xf, cop, kj, 
+                                 pp, np, nbp, nres, dp, pf, pctx, pq, pj, pd, 
+                                 nq >>
 
 pd_end(self) == /\ pc[self] = "pd_end"
                 /\ IF jobs[dq[self]] = << >>
@@ -3646,11 +3668,11 @@ pd_end(self) == /\ pc[self] = "pd_end"
                                 strong, ppPending, ppClosed, ppNotify, ppNC, 
                                 ppBP, ppDepth, ppAlive, ppHeld, inItems, 
                                 inClosed, inWaker, pollFn, chuteFn, pwTaken, 
-                                nextPoll, ppItem, h, dead, sti, rq, sq, sj, ww, 
-                                rsq, bown, bwk, bi, bcur, bw, bsp, jq, jj, jwk, 
-                                fj, oq, oop, omode, oj, yq, yop, tq, top, af, 
-                                wf, wop, sf, sctx, xf, cop, kj, pp, np, nbp, 
-                                nres, dp, pf, pctx, pq, pj, pd, nq >>
+                                nextPoll, ppItem, pjLive, h, dead, sti, rq, sq, 
+                                sj, ww, rsq, bown, bwk, bi, bcur, bw, bsp, jq, 
+                                jj, jwk, fj, oq, oop, omode, oj, yq, yop, tq, 
+                                top, af, wf, wop, sf, sctx, xf, cop, kj, pp, 
+                                np, nbp, nres, dp, pf, pctx, pq, pj, pd, nq >>
 
 pd_panic(self) == /\ pc[self] = "pd_panic"
                   /\ qstate' = [qstate EXCEPT ![dq[self]] = "Panicked"]
@@ -3670,9 +3692,9 @@ pd_panic(self) == /\ pc[self] = "pd_panic"
                                   atomic, strong, ppPending, ppClosed, 
                                   ppNotify, ppNC, ppBP, ppDepth, ppAlive, 
                                   ppHeld, inItems, inClosed, inWaker, pollFn, 
-                                  chuteFn, pwTaken, nextPoll, ppItem, h, dead, 
-                                  sti, rq, sq, sj, ww, rsq, bown, bwk, bi, 
-                                  bcur, bw, bsp, jq, jj, jwk, fj, oq, oop, 
+                                  chuteFn, pwTaken, nextPoll, ppItem, pjLive, 
+                                  h, dead, sti, rq, sq, sj, ww, rsq, bown, bwk, 
+                                  bi, bcur, bw, bsp, jq, jj, jwk, fj, oq, oop, 
                                   omode, oj, yq, yop, tq, top, af, wf, wop, sf, 
                                   sctx, xf, cop, kj, pp, np, nbp, nres, dp, pf, 
                                   pctx, pq, pj, pd, nq >>
@@ -3718,11 +3740,11 @@ ro_deq(self) == /\ pc[self] = "ro_deq"
                                 strong, ppPending, ppClosed, ppNotify, ppNC, 
                                 ppBP, ppDepth, ppAlive, ppHeld, inItems, 
                                 inClosed, inWaker, pollFn, chuteFn, pwTaken, 
-                                nextPoll, ppItem, h, dead, sti, rq, sq, sj, ww, 
-                                rsq, bown, bwk, bi, bcur, bw, bsp, fj, dq, dj, 
-                                yq, yop, tq, top, af, wf, wop, sf, sctx, xf, 
-                                cop, kj, pp, np, nbp, nres, dp, pf, pctx, pq, 
-                                pj, pd, nq >>
+                                nextPoll, ppItem, pjLive, h, dead, sti, rq, sq, 
+                                sj, ww, rsq, bown, bwk, bi, bcur, bw, bsp, fj, 
+                                dq, dj, yq, yop, tq, top, af, wf, wop, sf, 
+                                sctx, xf, cop, kj, pp, np, nbp, nres, dp, pf, 
+                                pctx, pq, pj, pd, nq >>
 
 z_ro_after(self) == /\ pc[self] = "z_ro_after"
                     /\ IF rv[self] = 5
@@ -3759,12 +3781,12 @@ z_ro_after(self) == /\ pc[self] = "z_ro_after"
                                     strong, ppPending, ppClosed, ppNotify, 
                                     ppNC, ppBP, ppDepth, ppAlive, ppHeld, 
                                     inItems, inClosed, inWaker, pollFn, 
-                                    chuteFn, pwTaken, nextPoll, ppItem, h, 
-                                    dead, sti, rq, sq, sj, ww, rsq, bown, bwk, 
-                                    bi, bcur, bw, bsp, jq, jj, jwk, dq, dj, oq, 
-                                    oop, omode, oj, yq, yop, tq, top, af, wf, 
-                                    wop, sf, sctx, xf, cop, kj, pp, np, nbp, 
-                                    nres, dp, pf, pctx, pq, pj, pd, nq >>
+                                    chuteFn, pwTaken, nextPoll, ppItem, pjLive, 
+                                    h, dead, sti, rq, sq, sj, ww, rsq, bown, 
+                                    bwk, bi, bcur, bw, bsp, jq, jj, jwk, dq, 
+                                    dj, oq, oop, omode, oj, yq, yop, tq, top, 
+                                    af, wf, wop, sf, sctx, xf, cop, kj, pp, np, 
+                                    nbp, nres, dp, pf, pctx, pq, pj, pd, nq >>
 
 z_ro_done(self) == /\ pc[self] = "z_ro_done"
                    /\ IF omode[self] = "sd" /\ ~sdres[oop[self]]
@@ -3789,11 +3811,11 @@ z_ro_done(self) == /\ pc[self] = "z_ro_done"
                                    ppPending, ppClosed, ppNotify, ppNC, ppBP, 
                                    ppDepth, ppAlive, ppHeld, inItems, inClosed, 
                                    inWaker, pollFn, chuteFn, pwTaken, nextPoll, 
-                                   ppItem, h, dead, sti, rq, sq, sj, ww, rsq, 
-                                   bown, bwk, bi, bcur, bw, bsp, jq, jj, jwk, 
-                                   fj, dq, dj, yq, yop, tq, top, af, wf, wop, 
-                                   sf, sctx, xf, cop, kj, pp, np, nbp, nres, 
-                                   dp, pf, pctx, pq, pj, pd, nq >>
+                                   ppItem, pjLive, h, dead, sti, rq, sq, sj, 
+                                   ww, rsq, bown, bwk, bi, bcur, bw, bsp, jq, 
+                                   jj, jwk, fj, dq, dj, yq, yop, tq, top, af, 
+                                   wf, wop, sf, sctx, xf, cop, kj, pp, np, nbp, 
+                                   nres, dp, pf, pctx, pq, pj, pd, nq >>
 
 z_ro_panic(self) == /\ pc[self] = "z_ro_panic"
                     /\ rv' = [rv EXCEPT ![self] = 9]
@@ -3815,12 +3837,12 @@ z_ro_panic(self) == /\ pc[self] = "z_ro_panic"
                                     ppPending, ppClosed, ppNotify, ppNC, ppBP, 
                                     ppDepth, ppAlive, ppHeld, inItems, 
                                     inClosed, inWaker, pollFn, chuteFn, 
-                                    pwTaken, nextPoll, ppItem, h, dead, sti, 
-                                    rq, sq, sj, ww, rsq, bown, bwk, bi, bcur, 
-                                    bw, bsp, jq, jj, jwk, fj, dq, dj, yq, yop, 
-                                    tq, top, af, wf, wop, sf, sctx, xf, cop, 
-                                    kj, pp, np, nbp, nres, dp, pf, pctx, pq, 
-                                    pj, pd, nq >>
+                                    pwTaken, nextPoll, ppItem, pjLive, h, dead, 
+                                    sti, rq, sq, sj, ww, rsq, bown, bwk, bi, 
+                                    bcur, bw, bsp, jq, jj, jwk, fj, dq, dj, yq, 
+                                    yop, tq, top, af, wf, wop, sf, sctx, xf, 
+                                    cop, kj, pp, np, nbp, nres, dp, pf, pctx, 
+                                    pq, pj, pd, nq >>
 
 ro_park(self) == /\ pc[self] = "ro_park"
                  /\ IF qstate[oq[self]] = "AwokenWhileRunning"
@@ -3836,7 +3858,7 @@ ro_park(self) == /\ pc[self] = "ro_park"
                                                                     \o stack[self]]
                             /\ pc' = [pc EXCEPT ![self] = "z_rj"]
                        ELSE /\ Assert(qstate[oq[self]] = "Running", 
-                                      "Failure of assertion at line 576, column 5.")
+                                      "Failure of assertion at line 579, column 5.")
                             /\ qstate' = [qstate EXCEPT ![oq[self]] = "WaitingForUnpark"]
                             /\ pc' = [pc EXCEPT ![self] = "ro_check"]
                             /\ UNCHANGED << stack, jq, jj, jwk >>
@@ -3851,12 +3873,12 @@ ro_park(self) == /\ pc[self] = "ro_park"
                                  dsl, atomic, strong, ppPending, ppClosed, 
                                  ppNotify, ppNC, ppBP, ppDepth, ppAlive, 
                                  ppHeld, inItems, inClosed, inWaker, pollFn, 
-                                 chuteFn, pwTaken, nextPoll, ppItem, h, dead, 
-                                 sti, rq, sq, sj, ww, rsq, bown, bwk, bi, bcur, 
-                                 bw, bsp, fj, dq, dj, oq, oop, omode, oj, yq, 
-                                 yop, tq, top, af, wf, wop, sf, sctx, xf, cop, 
-                                 kj, pp, np, nbp, nres, dp, pf, pctx, pq, pj, 
-                                 pd, nq >>
+                                 chuteFn, pwTaken, nextPoll, ppItem, pjLive, h, 
+                                 dead, sti, rq, sq, sj, ww, rsq, bown, bwk, bi, 
+                                 bcur, bw, bsp, fj, dq, dj, oq, oop, omode, oj, 
+                                 yq, yop, tq, top, af, wf, wop, sf, sctx, xf, 
+                                 cop, kj, pp, np, nbp, nres, dp, pf, pctx, pq, 
+                                 pj, pd, nq >>
 
 ro_check(self) == /\ pc[self] = "ro_check"
                   /\ IF qstate[oq[self]] \in {"Running", "AwokenWhileRunning"}
@@ -3871,7 +3893,7 @@ ro_check(self) == /\ pc[self] = "ro_check"
                                                                      \o stack[self]]
                              /\ pc' = [pc EXCEPT ![self] = "z_rj"]
                         ELSE /\ Assert(qstate[oq[self]] = "WaitingForUnpark", 
-                                       "Failure of assertion at line 583, column 12.")
+                                       "Failure of assertion at line 586, column 12.")
                              /\ pc' = [pc EXCEPT ![self] = "ro_parked"]
                              /\ UNCHANGED << stack, jq, jj, jwk >>
                   /\ UNCHANGED << qstate, qpoll, jobs, wakeBlocked, schedule, 
@@ -3885,12 +3907,12 @@ ro_check(self) == /\ pc[self] = "ro_check"
                                   dsl, atomic, strong, ppPending, ppClosed, 
                                   ppNotify, ppNC, ppBP, ppDepth, ppAlive, 
                                   ppHeld, inItems, inClosed, inWaker, pollFn, 
-                                  chuteFn, pwTaken, nextPoll, ppItem, h, dead, 
-                                  sti, rq, sq, sj, ww, rsq, bown, bwk, bi, 
-                                  bcur, bw, bsp, fj, dq, dj, oq, oop, omode, 
-                                  oj, yq, yop, tq, top, af, wf, wop, sf, sctx, 
-                                  xf, cop, kj, pp, np, nbp, nres, dp, pf, pctx, 
-                                  pq, pj, pd, nq >>
+                                  chuteFn, pwTaken, nextPoll, ppItem, pjLive, 
+                                  h, dead, sti, rq, sq, sj, ww, rsq, bown, bwk, 
+                                  bi, bcur, bw, bsp, fj, dq, dj, oq, oop, 
+                                  omode, oj, yq, yop, tq, top, af, wf, wop, sf, 
+                                  sctx, xf, cop, kj, pp, np, nbp, nres, dp, pf, 
+                                  pctx, pq, pj, pd, nq >>
 
 ro_parked(self) == /\ pc[self] = "ro_parked"
                    /\ parkTok[self]
@@ -3909,10 +3931,10 @@ ro_parked(self) == /\ pc[self] = "ro_parked"
                                    ppPending, ppClosed, ppNotify, ppNC, ppBP, 
                                    ppDepth, ppAlive, ppHeld, inItems, inClosed, 
                                    inWaker, pollFn, chuteFn, pwTaken, nextPoll, 
-                                   ppItem, stack, dead, sti, rq, sq, sj, ww, 
-                                   rsq, bown, bwk, bi, bcur, bw, bsp, jq, jj, 
-                                   jwk, fj, dq, dj, oq, oop, omode, oj, yq, 
-                                   yop, tq, top, af, wf, wop, sf, sctx, xf, 
+                                   ppItem, pjLive, stack, dead, sti, rq, sq, 
+                                   sj, ww, rsq, bown, bwk, bi, bcur, bw, bsp, 
+                                   jq, jj, jwk, fj, dq, dj, oq, oop, omode, oj, 
+                                   yq, yop, tq, top, af, wf, wop, sf, sctx, xf, 
                                    cop, kj, pp, np, nbp, nres, dp, pf, pctx, 
                                    pq, pj, pd, nq >>
 
@@ -3971,11 +3993,11 @@ sy_decide(self) == /\ pc[self] = "sy_decide"
                                    ppPending, ppClosed, ppNotify, ppNC, ppBP, 
                                    ppDepth, ppAlive, ppHeld, inItems, inClosed, 
                                    inWaker, pollFn, chuteFn, pwTaken, nextPoll, 
-                                   ppItem, h, dead, sti, rq, sq, sj, ww, rsq, 
-                                   bown, bwk, bi, bcur, bw, bsp, fj, dq, dj, 
-                                   oq, oop, omode, oj, tq, top, af, wf, wop, 
-                                   sf, sctx, xf, cop, kj, pp, np, nbp, nres, 
-                                   dp, pf, pctx, pq, pj, pd, nq >>
+                                   ppItem, pjLive, h, dead, sti, rq, sq, sj, 
+                                   ww, rsq, bown, bwk, bi, bcur, bw, bsp, fj, 
+                                   dq, dj, oq, oop, omode, oj, tq, top, af, wf, 
+                                   wop, sf, sctx, xf, cop, kj, pp, np, nbp, 
+                                   nres, dp, pf, pctx, pq, pj, pd, nq >>
 
 z_si_chk(self) == /\ pc[self] = "z_si_chk"
                   /\ IF rv[self] = 9
@@ -3992,12 +4014,12 @@ z_si_chk(self) == /\ pc[self] = "z_si_chk"
                                   dsl, atomic, strong, ppPending, ppClosed, 
                                   ppNotify, ppNC, ppBP, ppDepth, ppAlive, 
                                   ppHeld, inItems, inClosed, inWaker, pollFn, 
-                                  chuteFn, pwTaken, nextPoll, ppItem, h, stack, 
-                                  dead, sti, rq, sq, sj, ww, rsq, bown, bwk, 
-                                  bi, bcur, bw, bsp, jq, jj, jwk, fj, dq, dj, 
-                                  oq, oop, omode, oj, yq, yop, tq, top, af, wf, 
-                                  wop, sf, sctx, xf, cop, kj, pp, np, nbp, 
-                                  nres, dp, pf, pctx, pq, pj, pd, nq >>
+                                  chuteFn, pwTaken, nextPoll, ppItem, pjLive, 
+                                  h, stack, dead, sti, rq, sq, sj, ww, rsq, 
+                                  bown, bwk, bi, bcur, bw, bsp, jq, jj, jwk, 
+                                  fj, dq, dj, oq, oop, omode, oj, yq, yop, tq, 
+                                  top, af, wf, wop, sf, sctx, xf, cop, kj, pp, 
+                                  np, nbp, nres, dp, pf, pctx, pq, pj, pd, nq >>
 
 si_idle(self) == /\ pc[self] = "si_idle"
                  /\ qstate' = [qstate EXCEPT ![yq[self]] = "Idle"]
@@ -4018,12 +4040,12 @@ si_idle(self) == /\ pc[self] = "si_idle"
                                  dsl, atomic, strong, ppPending, ppClosed, 
                                  ppNotify, ppNC, ppBP, ppDepth, ppAlive, 
                                  ppHeld, inItems, inClosed, inWaker, pollFn, 
-                                 chuteFn, pwTaken, nextPoll, ppItem, h, dead, 
-                                 sti, sq, sj, ww, rsq, bown, bwk, bi, bcur, bw, 
-                                 bsp, jq, jj, jwk, fj, dq, dj, oq, oop, omode, 
-                                 oj, yq, yop, tq, top, af, wf, wop, sf, sctx, 
-                                 xf, cop, kj, pp, np, nbp, nres, dp, pf, pctx, 
-                                 pq, pj, pd, nq >>
+                                 chuteFn, pwTaken, nextPoll, ppItem, pjLive, h, 
+                                 dead, sti, sq, sj, ww, rsq, bown, bwk, bi, 
+                                 bcur, bw, bsp, jq, jj, jwk, fj, dq, dj, oq, 
+                                 oop, omode, oj, yq, yop, tq, top, af, wf, wop, 
+                                 sf, sctx, xf, cop, kj, pp, np, nbp, nres, dp, 
+                                 pf, pctx, pq, pj, pd, nq >>
 
 z_si_ret(self) == /\ pc[self] = "z_si_ret"
                   /\ rv' = [rv EXCEPT ![self] = 0]
@@ -4042,10 +4064,10 @@ z_si_ret(self) == /\ pc[self] = "z_si_ret"
                                   atomic, strong, ppPending, ppClosed, 
                                   ppNotify, ppNC, ppBP, ppDepth, ppAlive, 
                                   ppHeld, inItems, inClosed, inWaker, pollFn, 
-                                  chuteFn, pwTaken, nextPoll, ppItem, h, dead, 
-                                  sti, rq, sq, sj, ww, rsq, bown, bwk, bi, 
-                                  bcur, bw, bsp, jq, jj, jwk, fj, dq, dj, oq, 
-                                  oop, omode, oj, tq, top, af, wf, wop, sf, 
+                                  chuteFn, pwTaken, nextPoll, ppItem, pjLive, 
+                                  h, dead, sti, rq, sq, sj, ww, rsq, bown, bwk, 
+                                  bi, bcur, bw, bsp, jq, jj, jwk, fj, dq, dj, 
+                                  oq, oop, omode, oj, tq, top, af, wf, wop, sf, 
                                   sctx, xf, cop, kj, pp, np, nbp, nres, dp, pf, 
                                   pctx, pq, pj, pd, nq >>
 
@@ -4075,11 +4097,12 @@ sd_push(self) == /\ pc[self] = "sd_push"
                                  dsl, atomic, strong, ppPending, ppClosed, 
                                  ppNotify, ppNC, ppBP, ppDepth, ppAlive, 
                                  ppHeld, inItems, inClosed, inWaker, pollFn, 
-                                 chuteFn, pwTaken, nextPoll, ppItem, h, dead, 
-                                 sti, rq, sq, sj, ww, rsq, bown, bwk, bi, bcur, 
-                                 bw, bsp, jq, jj, jwk, fj, dq, dj, yq, yop, tq, 
-                                 top, af, wf, wop, sf, sctx, xf, cop, kj, pp, 
-                                 np, nbp, nres, dp, pf, pctx, pq, pj, pd, nq >>
+                                 chuteFn, pwTaken, nextPoll, ppItem, pjLive, h, 
+                                 dead, sti, rq, sq, sj, ww, rsq, bown, bwk, bi, 
+                                 bcur, bw, bsp, jq, jj, jwk, fj, dq, dj, yq, 
+                                 yop, tq, top, af, wf, wop, sf, sctx, xf, cop, 
+                                 kj, pp, np, nbp, nres, dp, pf, pctx, pq, pj, 
+                                 pd, nq >>
 
 z_sd_chk(self) == /\ pc[self] = "z_sd_chk"
                   /\ IF rv[self] = 9
@@ -4096,12 +4119,12 @@ z_sd_chk(self) == /\ pc[self] = "z_sd_chk"
                                   dsl, atomic, strong, ppPending, ppClosed, 
                                   ppNotify, ppNC, ppBP, ppDepth, ppAlive, 
                                   ppHeld, inItems, inClosed, inWaker, pollFn, 
-                                  chuteFn, pwTaken, nextPoll, ppItem, h, stack, 
-                                  dead, sti, rq, sq, sj, ww, rsq, bown, bwk, 
-                                  bi, bcur, bw, bsp, jq, jj, jwk, fj, dq, dj, 
-                                  oq, oop, omode, oj, yq, yop, tq, top, af, wf, 
-                                  wop, sf, sctx, xf, cop, kj, pp, np, nbp, 
-                                  nres, dp, pf, pctx, pq, pj, pd, nq >>
+                                  chuteFn, pwTaken, nextPoll, ppItem, pjLive, 
+                                  h, stack, dead, sti, rq, sq, sj, ww, rsq, 
+                                  bown, bwk, bi, bcur, bw, bsp, jq, jj, jwk, 
+                                  fj, dq, dj, oq, oop, omode, oj, yq, yop, tq, 
+                                  top, af, wf, wop, sf, sctx, xf, cop, kj, pp, 
+                                  np, nbp, nres, dp, pf, pctx, pq, pj, pd, nq >>
 
 sd_idle(self) == /\ pc[self] = "sd_idle"
                  /\ qstate' = [qstate EXCEPT ![yq[self]] = "Idle"]
@@ -4122,12 +4145,12 @@ sd_idle(self) == /\ pc[self] = "sd_idle"
                                  dsl, atomic, strong, ppPending, ppClosed, 
                                  ppNotify, ppNC, ppBP, ppDepth, ppAlive, 
                                  ppHeld, inItems, inClosed, inWaker, pollFn, 
-                                 chuteFn, pwTaken, nextPoll, ppItem, h, dead, 
-                                 sti, sq, sj, ww, rsq, bown, bwk, bi, bcur, bw, 
-                                 bsp, jq, jj, jwk, fj, dq, dj, oq, oop, omode, 
-                                 oj, yq, yop, tq, top, af, wf, wop, sf, sctx, 
-                                 xf, cop, kj, pp, np, nbp, nres, dp, pf, pctx, 
-                                 pq, pj, pd, nq >>
+                                 chuteFn, pwTaken, nextPoll, ppItem, pjLive, h, 
+                                 dead, sti, sq, sj, ww, rsq, bown, bwk, bi, 
+                                 bcur, bw, bsp, jq, jj, jwk, fj, dq, dj, oq, 
+                                 oop, omode, oj, yq, yop, tq, top, af, wf, wop, 
+                                 sf, sctx, xf, cop, kj, pp, np, nbp, nres, dp, 
+                                 pf, pctx, pq, pj, pd, nq >>
 
 sb_reg(self) == /\ pc[self] = "sb_reg"
                 /\ wakeBlocked' = [wakeBlocked EXCEPT ![yq[self]] = Append(wakeBlocked[yq[self]], yop[self])]
@@ -4144,12 +4167,12 @@ sb_reg(self) == /\ pc[self] = "sb_reg"
                                 strong, ppPending, ppClosed, ppNotify, ppNC, 
                                 ppBP, ppDepth, ppAlive, ppHeld, inItems, 
                                 inClosed, inWaker, pollFn, chuteFn, pwTaken, 
-                                nextPoll, ppItem, h, stack, dead, sti, rq, sq, 
-                                sj, ww, rsq, bown, bwk, bi, bcur, bw, bsp, jq, 
-                                jj, jwk, fj, dq, dj, oq, oop, omode, oj, yq, 
-                                yop, tq, top, af, wf, wop, sf, sctx, xf, cop, 
-                                kj, pp, np, nbp, nres, dp, pf, pctx, pq, pj, 
-                                pd, nq >>
+                                nextPoll, ppItem, pjLive, h, stack, dead, sti, 
+                                rq, sq, sj, ww, rsq, bown, bwk, bi, bcur, bw, 
+                                bsp, jq, jj, jwk, fj, dq, dj, oq, oop, omode, 
+                                oj, yq, yop, tq, top, af, wf, wop, sf, sctx, 
+                                xf, cop, kj, pp, np, nbp, nres, dp, pf, pctx, 
+                                pq, pj, pd, nq >>
 
 sb_push(self) == /\ pc[self] = "sb_push"
                  /\ jkind' = [jkind EXCEPT ![yop[self]] = "syncbg"]
@@ -4174,12 +4197,12 @@ sb_push(self) == /\ pc[self] = "sb_push"
                                  dsl, atomic, strong, ppPending, ppClosed, 
                                  ppNotify, ppNC, ppBP, ppDepth, ppAlive, 
                                  ppHeld, inItems, inClosed, inWaker, pollFn, 
-                                 chuteFn, pwTaken, nextPoll, ppItem, h, dead, 
-                                 sti, sq, sj, ww, rsq, bown, bwk, bi, bcur, bw, 
-                                 bsp, jq, jj, jwk, fj, dq, dj, oq, oop, omode, 
-                                 oj, yq, yop, tq, top, af, wf, wop, sf, sctx, 
-                                 xf, cop, kj, pp, np, nbp, nres, dp, pf, pctx, 
-                                 pq, pj, pd, nq >>
+                                 chuteFn, pwTaken, nextPoll, ppItem, pjLive, h, 
+                                 dead, sti, sq, sj, ww, rsq, bown, bwk, bi, 
+                                 bcur, bw, bsp, jq, jj, jwk, fj, dq, dj, oq, 
+                                 oop, omode, oj, yq, yop, tq, top, af, wf, wop, 
+                                 sf, sctx, xf, cop, kj, pp, np, nbp, nres, dp, 
+                                 pf, pctx, pq, pj, pd, nq >>
 
 sb_lock(self) == /\ pc[self] = "sb_lock"
                  /\ IF ready[yop[self]]
@@ -4206,12 +4229,13 @@ sb_lock(self) == /\ pc[self] = "sb_lock"
                                  rneed, dsl, atomic, strong, ppPending, 
                                  ppClosed, ppNotify, ppNC, ppBP, ppDepth, 
                                  ppAlive, ppHeld, inItems, inClosed, inWaker, 
-                                 pollFn, chuteFn, pwTaken, nextPoll, ppItem, h, 
-                                 stack, dead, sti, rq, sq, sj, ww, rsq, bown, 
-                                 bwk, bi, bcur, bw, bsp, jq, jj, jwk, fj, dq, 
-                                 dj, oq, oop, omode, oj, yq, yop, tq, top, af, 
-                                 wf, wop, sf, sctx, xf, cop, kj, pp, np, nbp, 
-                                 nres, dp, pf, pctx, pq, pj, pd, nq >>
+                                 pollFn, chuteFn, pwTaken, nextPoll, ppItem, 
+                                 pjLive, h, stack, dead, sti, rq, sq, sj, ww, 
+                                 rsq, bown, bwk, bi, bcur, bw, bsp, jq, jj, 
+                                 jwk, fj, dq, dj, oq, oop, omode, oj, yq, yop, 
+                                 tq, top, af, wf, wop, sf, sctx, xf, cop, kj, 
+                                 pp, np, nbp, nres, dp, pf, pctx, pq, pj, pd, 
+                                 nq >>
 
 sb_claim(self) == /\ pc[self] = "sb_claim"
                   /\ IF qstate[yq[self]] \in {"Pending", "Idle"}
@@ -4231,12 +4255,12 @@ sb_claim(self) == /\ pc[self] = "sb_claim"
                                   atomic, strong, ppPending, ppClosed, 
                                   ppNotify, ppNC, ppBP, ppDepth, ppAlive, 
                                   ppHeld, inItems, inClosed, inWaker, pollFn, 
-                                  chuteFn, pwTaken, nextPoll, ppItem, h, stack, 
-                                  dead, sti, rq, sq, sj, ww, rsq, bown, bwk, 
-                                  bi, bcur, bw, bsp, jq, jj, jwk, fj, dq, dj, 
-                                  oq, oop, omode, oj, yq, yop, tq, top, af, wf, 
-                                  wop, sf, sctx, xf, cop, kj, pp, np, nbp, 
-                                  nres, dp, pf, pctx, pq, pj, pd, nq >>
+                                  chuteFn, pwTaken, nextPoll, ppItem, pjLive, 
+                                  h, stack, dead, sti, rq, sq, sj, ww, rsq, 
+                                  bown, bwk, bi, bcur, bw, bsp, jq, jj, jwk, 
+                                  fj, dq, dj, oq, oop, omode, oj, yq, yop, tq, 
+                                  top, af, wf, wop, sf, sctx, xf, cop, kj, pp, 
+                                  np, nbp, nres, dp, pf, pctx, pq, pj, pd, nq >>
 
 sb_chk(self) == /\ pc[self] = "sb_chk"
                 /\ IF ~ready[yop[self]]
@@ -4265,11 +4289,11 @@ sb_chk(self) == /\ pc[self] = "sb_chk"
                                 atomic, strong, ppPending, ppClosed, ppNotify, 
                                 ppNC, ppBP, ppDepth, ppAlive, ppHeld, inItems, 
                                 inClosed, inWaker, pollFn, chuteFn, pwTaken, 
-                                nextPoll, ppItem, h, dead, sti, rq, sq, sj, ww, 
-                                rsq, bown, bwk, bi, bcur, bw, bsp, jq, jj, jwk, 
-                                fj, dq, dj, yq, yop, tq, top, af, wf, wop, sf, 
-                                sctx, xf, cop, kj, pp, np, nbp, nres, dp, pf, 
-                                pctx, pq, pj, pd, nq >>
+                                nextPoll, ppItem, pjLive, h, dead, sti, rq, sq, 
+                                sj, ww, rsq, bown, bwk, bi, bcur, bw, bsp, jq, 
+                                jj, jwk, fj, dq, dj, yq, yop, tq, top, af, wf, 
+                                wop, sf, sctx, xf, cop, kj, pp, np, nbp, nres, 
+                                dp, pf, pctx, pq, pj, pd, nq >>
 
 sb_idle(self) == /\ pc[self] = "sb_idle"
                  /\ qstate' = [qstate EXCEPT ![yq[self]] = "Idle"]
@@ -4290,12 +4314,12 @@ sb_idle(self) == /\ pc[self] = "sb_idle"
                                  dsl, atomic, strong, ppPending, ppClosed, 
                                  ppNotify, ppNC, ppBP, ppDepth, ppAlive, 
                                  ppHeld, inItems, inClosed, inWaker, pollFn, 
-                                 chuteFn, pwTaken, nextPoll, ppItem, h, dead, 
-                                 sti, sq, sj, ww, rsq, bown, bwk, bi, bcur, bw, 
-                                 bsp, jq, jj, jwk, fj, dq, dj, oq, oop, omode, 
-                                 oj, yq, yop, tq, top, af, wf, wop, sf, sctx, 
-                                 xf, cop, kj, pp, np, nbp, nres, dp, pf, pctx, 
-                                 pq, pj, pd, nq >>
+                                 chuteFn, pwTaken, nextPoll, ppItem, pjLive, h, 
+                                 dead, sti, sq, sj, ww, rsq, bown, bwk, bi, 
+                                 bcur, bw, bsp, jq, jj, jwk, fj, dq, dj, oq, 
+                                 oop, omode, oj, yq, yop, tq, top, af, wf, wop, 
+                                 sf, sctx, xf, cop, kj, pp, np, nbp, nres, dp, 
+                                 pf, pctx, pq, pj, pd, nq >>
 
 z_sb_chk(self) == /\ pc[self] = "z_sb_chk"
                   /\ IF rv[self] = 9
@@ -4321,10 +4345,10 @@ z_sb_chk(self) == /\ pc[self] = "z_sb_chk"
                                   atomic, strong, ppPending, ppClosed, 
                                   ppNotify, ppNC, ppBP, ppDepth, ppAlive, 
                                   ppHeld, inItems, inClosed, inWaker, pollFn, 
-                                  chuteFn, pwTaken, nextPoll, ppItem, h, dead, 
-                                  sti, rq, sq, sj, ww, rsq, bown, bwk, bi, 
-                                  bcur, bw, bsp, jq, jj, jwk, fj, dq, dj, oq, 
-                                  oop, omode, oj, tq, top, af, wf, wop, sf, 
+                                  chuteFn, pwTaken, nextPoll, ppItem, pjLive, 
+                                  h, dead, sti, rq, sq, sj, ww, rsq, bown, bwk, 
+                                  bi, bcur, bw, bsp, jq, jj, jwk, fj, dq, dj, 
+                                  oq, oop, omode, oj, tq, top, af, wf, wop, sf, 
                                   sctx, xf, cop, kj, pp, np, nbp, nres, dp, pf, 
                                   pctx, pq, pj, pd, nq >>
 
@@ -4365,11 +4389,11 @@ sb_wait(self) == /\ pc[self] = "sb_wait"
                                  ppClosed, ppNotify, ppNC, ppBP, ppDepth, 
                                  ppAlive, ppHeld, inItems, inClosed, inWaker, 
                                  pollFn, chuteFn, pwTaken, nextPoll, ppItem, 
-                                 stack, dead, sti, rq, sq, sj, ww, rsq, bown, 
-                                 bwk, bi, bcur, bw, bsp, jq, jj, jwk, fj, dq, 
-                                 dj, oq, oop, omode, oj, yq, yop, tq, top, af, 
-                                 wf, wop, sf, sctx, xf, cop, kj, pp, np, nbp, 
-                                 nres, dp, pf, pctx, pq, pj, pd, nq >>
+                                 pjLive, stack, dead, sti, rq, sq, sj, ww, rsq, 
+                                 bown, bwk, bi, bcur, bw, bsp, jq, jj, jwk, fj, 
+                                 dq, dj, oq, oop, omode, oj, yq, yop, tq, top, 
+                                 af, wf, wop, sf, sctx, xf, cop, kj, pp, np, 
+                                 nbp, nres, dp, pf, pctx, pq, pj, pd, nq >>
 
 sb_fin(self) == /\ pc[self] = "sb_fin"
                 /\ wakeBlocked' = [wakeBlocked EXCEPT ![yq[self]] = SelectSeq(wakeBlocked[yq[self]], LAMBDA x : (x # yop[self] /\ CvAlive(x)) \/ (x = yop[self] /\ \E t \in Procs : yop[self] \in SeqSet(rwb[t])))]
@@ -4389,11 +4413,11 @@ sb_fin(self) == /\ pc[self] = "sb_fin"
                                 strong, ppPending, ppClosed, ppNotify, ppNC, 
                                 ppBP, ppDepth, ppAlive, ppHeld, inItems, 
                                 inClosed, inWaker, pollFn, chuteFn, pwTaken, 
-                                nextPoll, ppItem, h, dead, sti, rq, sq, sj, ww, 
-                                rsq, bown, bwk, bi, bcur, bw, bsp, jq, jj, jwk, 
-                                fj, dq, dj, oq, oop, omode, oj, tq, top, af, 
-                                wf, wop, sf, sctx, xf, cop, kj, pp, np, nbp, 
-                                nres, dp, pf, pctx, pq, pj, pd, nq >>
+                                nextPoll, ppItem, pjLive, h, dead, sti, rq, sq, 
+                                sj, ww, rsq, bown, bwk, bi, bcur, bw, bsp, jq, 
+                                jj, jwk, fj, dq, dj, oq, oop, omode, oj, tq, 
+                                top, af, wf, wop, sf, sctx, xf, cop, kj, pp, 
+                                np, nbp, nres, dp, pf, pctx, pq, pj, pd, nq >>
 
 sy_panic(self) == /\ pc[self] = "sy_panic"
                   /\ qstate' = [qstate EXCEPT ![yq[self]] = "Panicked"]
@@ -4413,10 +4437,10 @@ sy_panic(self) == /\ pc[self] = "sy_panic"
                                   atomic, strong, ppPending, ppClosed, 
                                   ppNotify, ppNC, ppBP, ppDepth, ppAlive, 
                                   ppHeld, inItems, inClosed, inWaker, pollFn, 
-                                  chuteFn, pwTaken, nextPoll, ppItem, h, dead, 
-                                  sti, rq, sq, sj, ww, rsq, bown, bwk, bi, 
-                                  bcur, bw, bsp, jq, jj, jwk, fj, dq, dj, oq, 
-                                  oop, omode, oj, tq, top, af, wf, wop, sf, 
+                                  chuteFn, pwTaken, nextPoll, ppItem, pjLive, 
+                                  h, dead, sti, rq, sq, sj, ww, rsq, bown, bwk, 
+                                  bi, bcur, bw, bsp, jq, jj, jwk, fj, dq, dj, 
+                                  oq, oop, omode, oj, tq, top, af, wf, wop, sf, 
                                   sctx, xf, cop, kj, pp, np, nbp, nres, dp, pf, 
                                   pctx, pq, pj, pd, nq >>
 
@@ -4477,11 +4501,11 @@ ts_decide(self) == /\ pc[self] = "ts_decide"
                                    ppPending, ppClosed, ppNotify, ppNC, ppBP, 
                                    ppDepth, ppAlive, ppHeld, inItems, inClosed, 
                                    inWaker, pollFn, chuteFn, pwTaken, nextPoll, 
-                                   ppItem, h, dead, sti, rq, sq, sj, ww, rsq, 
-                                   bown, bwk, bi, bcur, bw, bsp, fj, dq, dj, 
-                                   oq, oop, omode, oj, yq, yop, af, wf, wop, 
-                                   sf, sctx, xf, cop, kj, pp, np, nbp, nres, 
-                                   dp, pf, pctx, pq, pj, pd, nq >>
+                                   ppItem, pjLive, h, dead, sti, rq, sq, sj, 
+                                   ww, rsq, bown, bwk, bi, bcur, bw, bsp, fj, 
+                                   dq, dj, oq, oop, omode, oj, yq, yop, af, wf, 
+                                   wop, sf, sctx, xf, cop, kj, pp, np, nbp, 
+                                   nres, dp, pf, pctx, pq, pj, pd, nq >>
 
 z_ts_chk(self) == /\ pc[self] = "z_ts_chk"
                   /\ IF rv[self] = 9
@@ -4498,12 +4522,12 @@ z_ts_chk(self) == /\ pc[self] = "z_ts_chk"
                                   dsl, atomic, strong, ppPending, ppClosed, 
                                   ppNotify, ppNC, ppBP, ppDepth, ppAlive, 
                                   ppHeld, inItems, inClosed, inWaker, pollFn, 
-                                  chuteFn, pwTaken, nextPoll, ppItem, h, stack, 
-                                  dead, sti, rq, sq, sj, ww, rsq, bown, bwk, 
-                                  bi, bcur, bw, bsp, jq, jj, jwk, fj, dq, dj, 
-                                  oq, oop, omode, oj, yq, yop, tq, top, af, wf, 
-                                  wop, sf, sctx, xf, cop, kj, pp, np, nbp, 
-                                  nres, dp, pf, pctx, pq, pj, pd, nq >>
+                                  chuteFn, pwTaken, nextPoll, ppItem, pjLive, 
+                                  h, stack, dead, sti, rq, sq, sj, ww, rsq, 
+                                  bown, bwk, bi, bcur, bw, bsp, jq, jj, jwk, 
+                                  fj, dq, dj, oq, oop, omode, oj, yq, yop, tq, 
+                                  top, af, wf, wop, sf, sctx, xf, cop, kj, pp, 
+                                  np, nbp, nres, dp, pf, pctx, pq, pj, pd, nq >>
 
 ts_idle(self) == /\ pc[self] = "ts_idle"
                  /\ qstate' = [qstate EXCEPT ![tq[self]] = "Idle"]
@@ -4524,12 +4548,12 @@ ts_idle(self) == /\ pc[self] = "ts_idle"
                                  dsl, atomic, strong, ppPending, ppClosed, 
                                  ppNotify, ppNC, ppBP, ppDepth, ppAlive, 
                                  ppHeld, inItems, inClosed, inWaker, pollFn, 
-                                 chuteFn, pwTaken, nextPoll, ppItem, h, dead, 
-                                 sti, sq, sj, ww, rsq, bown, bwk, bi, bcur, bw, 
-                                 bsp, jq, jj, jwk, fj, dq, dj, oq, oop, omode, 
-                                 oj, yq, yop, tq, top, af, wf, wop, sf, sctx, 
-                                 xf, cop, kj, pp, np, nbp, nres, dp, pf, pctx, 
-                                 pq, pj, pd, nq >>
+                                 chuteFn, pwTaken, nextPoll, ppItem, pjLive, h, 
+                                 dead, sti, sq, sj, ww, rsq, bown, bwk, bi, 
+                                 bcur, bw, bsp, jq, jj, jwk, fj, dq, dj, oq, 
+                                 oop, omode, oj, yq, yop, tq, top, af, wf, wop, 
+                                 sf, sctx, xf, cop, kj, pp, np, nbp, nres, dp, 
+                                 pf, pctx, pq, pj, pd, nq >>
 
 z_ts_ret(self) == /\ pc[self] = "z_ts_ret"
                   /\ rv' = [rv EXCEPT ![self] = 0]
@@ -4548,10 +4572,10 @@ z_ts_ret(self) == /\ pc[self] = "z_ts_ret"
                                   atomic, strong, ppPending, ppClosed, 
                                   ppNotify, ppNC, ppBP, ppDepth, ppAlive, 
                                   ppHeld, inItems, inClosed, inWaker, pollFn, 
-                                  chuteFn, pwTaken, nextPoll, ppItem, h, dead, 
-                                  sti, rq, sq, sj, ww, rsq, bown, bwk, bi, 
-                                  bcur, bw, bsp, jq, jj, jwk, fj, dq, dj, oq, 
-                                  oop, omode, oj, yq, yop, af, wf, wop, sf, 
+                                  chuteFn, pwTaken, nextPoll, ppItem, pjLive, 
+                                  h, dead, sti, rq, sq, sj, ww, rsq, bown, bwk, 
+                                  bi, bcur, bw, bsp, jq, jj, jwk, fj, dq, dj, 
+                                  oq, oop, omode, oj, yq, yop, af, wf, wop, sf, 
                                   sctx, xf, cop, kj, pp, np, nbp, nres, dp, pf, 
                                   pctx, pq, pj, pd, nq >>
 
@@ -4573,10 +4597,10 @@ ts_panic(self) == /\ pc[self] = "ts_panic"
                                   atomic, strong, ppPending, ppClosed, 
                                   ppNotify, ppNC, ppBP, ppDepth, ppAlive, 
                                   ppHeld, inItems, inClosed, inWaker, pollFn, 
-                                  chuteFn, pwTaken, nextPoll, ppItem, h, dead, 
-                                  sti, rq, sq, sj, ww, rsq, bown, bwk, bi, 
-                                  bcur, bw, bsp, jq, jj, jwk, fj, dq, dj, oq, 
-                                  oop, omode, oj, yq, yop, af, wf, wop, sf, 
+                                  chuteFn, pwTaken, nextPoll, ppItem, pjLive, 
+                                  h, dead, sti, rq, sq, sj, ww, rsq, bown, bwk, 
+                                  bi, bcur, bw, bsp, jq, jj, jwk, fj, dq, dj, 
+                                  oq, oop, omode, oj, yq, yop, af, wf, wop, sf, 
                                   sctx, xf, cop, kj, pp, np, nbp, nres, dp, pf, 
                                   pctx, pq, pj, pd, nq >>
 
@@ -4621,11 +4645,11 @@ z_aw_poll(self) == /\ pc[self] = "z_aw_poll"
                                    strong, ppPending, ppClosed, ppNotify, ppNC, 
                                    ppBP, ppDepth, ppAlive, ppHeld, inItems, 
                                    inClosed, inWaker, pollFn, chuteFn, pwTaken, 
-                                   nextPoll, ppItem, h, dead, sti, rq, sq, sj, 
-                                   ww, rsq, bown, bwk, bi, bcur, bw, bsp, jq, 
-                                   jj, jwk, fj, dq, dj, oq, oop, omode, oj, yq, 
-                                   yop, tq, top, af, wf, wop, xf, cop, kj, pp, 
-                                   np, nbp, nres, dp, nq >>
+                                   nextPoll, ppItem, pjLive, h, dead, sti, rq, 
+                                   sq, sj, ww, rsq, bown, bwk, bi, bcur, bw, 
+                                   bsp, jq, jj, jwk, fj, dq, dj, oq, oop, 
+                                   omode, oj, yq, yop, tq, top, af, wf, wop, 
+                                   xf, cop, kj, pp, np, nbp, nres, dp, nq >>
 
 z_aw_after(self) == /\ pc[self] = "z_aw_after"
                     /\ IF rv[self] = 5
@@ -4650,12 +4674,12 @@ z_aw_after(self) == /\ pc[self] = "z_aw_after"
                                     strong, ppPending, ppClosed, ppNotify, 
                                     ppNC, ppBP, ppDepth, ppAlive, ppHeld, 
                                     inItems, inClosed, inWaker, pollFn, 
-                                    chuteFn, pwTaken, nextPoll, ppItem, dead, 
-                                    sti, rq, sq, sj, ww, rsq, bown, bwk, bi, 
-                                    bcur, bw, bsp, jq, jj, jwk, fj, dq, dj, oq, 
-                                    oop, omode, oj, yq, yop, tq, top, wf, wop, 
-                                    sf, sctx, xf, cop, kj, pp, np, nbp, nres, 
-                                    dp, pf, pctx, pq, pj, pd, nq >>
+                                    chuteFn, pwTaken, nextPoll, ppItem, pjLive, 
+                                    dead, sti, rq, sq, sj, ww, rsq, bown, bwk, 
+                                    bi, bcur, bw, bsp, jq, jj, jwk, fj, dq, dj, 
+                                    oq, oop, omode, oj, yq, yop, tq, top, wf, 
+                                    wop, sf, sctx, xf, cop, kj, pp, np, nbp, 
+                                    nres, dp, pf, pctx, pq, pj, pd, nq >>
 
 aw_park(self) == /\ pc[self] = "aw_park"
                  /\ parkTok[self]
@@ -4672,12 +4696,12 @@ aw_park(self) == /\ pc[self] = "aw_park"
                                  strong, ppPending, ppClosed, ppNotify, ppNC, 
                                  ppBP, ppDepth, ppAlive, ppHeld, inItems, 
                                  inClosed, inWaker, pollFn, chuteFn, pwTaken, 
-                                 nextPoll, ppItem, h, stack, dead, sti, rq, sq, 
-                                 sj, ww, rsq, bown, bwk, bi, bcur, bw, bsp, jq, 
-                                 jj, jwk, fj, dq, dj, oq, oop, omode, oj, yq, 
-                                 yop, tq, top, af, wf, wop, sf, sctx, xf, cop, 
-                                 kj, pp, np, nbp, nres, dp, pf, pctx, pq, pj, 
-                                 pd, nq >>
+                                 nextPoll, ppItem, pjLive, h, stack, dead, sti, 
+                                 rq, sq, sj, ww, rsq, bown, bwk, bi, bcur, bw, 
+                                 bsp, jq, jj, jwk, fj, dq, dj, oq, oop, omode, 
+                                 oj, yq, yop, tq, top, af, wf, wop, sf, sctx, 
+                                 xf, cop, kj, pp, np, nbp, nres, dp, pf, pctx, 
+                                 pq, pj, pd, nq >>
 
 Await(self) == z_aw_poll(self) \/ z_aw_after(self) \/ aw_park(self)
 
@@ -4720,11 +4744,11 @@ fs_take(self) == /\ pc[self] = "fs_take"
                                  atomic, strong, ppPending, ppClosed, ppNotify, 
                                  ppNC, ppBP, ppDepth, ppAlive, ppHeld, inItems, 
                                  inClosed, inWaker, pollFn, chuteFn, pwTaken, 
-                                 nextPoll, ppItem, dead, sti, rq, sq, sj, ww, 
-                                 rsq, bown, bwk, bi, bcur, bw, bsp, jq, jj, 
-                                 jwk, fj, dq, dj, oq, oop, omode, oj, tq, top, 
-                                 af, sf, sctx, xf, cop, kj, pp, np, nbp, nres, 
-                                 dp, pf, pctx, pq, pj, pd, nq >>
+                                 nextPoll, ppItem, pjLive, dead, sti, rq, sq, 
+                                 sj, ww, rsq, bown, bwk, bi, bcur, bw, bsp, jq, 
+                                 jj, jwk, fj, dq, dj, oq, oop, omode, oj, tq, 
+                                 top, af, sf, sctx, xf, cop, kj, pp, np, nbp, 
+                                 nres, dp, pf, pctx, pq, pj, pd, nq >>
 
 z_fs_after(self) == /\ pc[self] = "z_fs_after"
                     /\ IF rv[self] = 0
@@ -4747,12 +4771,12 @@ z_fs_after(self) == /\ pc[self] = "z_fs_after"
                                     strong, ppPending, ppClosed, ppNotify, 
                                     ppNC, ppBP, ppDepth, ppAlive, ppHeld, 
                                     inItems, inClosed, inWaker, pollFn, 
-                                    chuteFn, pwTaken, nextPoll, ppItem, dead, 
-                                    sti, rq, sq, sj, ww, rsq, bown, bwk, bi, 
-                                    bcur, bw, bsp, jq, jj, jwk, fj, dq, dj, oq, 
-                                    oop, omode, oj, yq, yop, tq, top, af, sf, 
-                                    sctx, xf, cop, kj, pp, np, nbp, nres, dp, 
-                                    pf, pctx, pq, pj, pd, nq >>
+                                    chuteFn, pwTaken, nextPoll, ppItem, pjLive, 
+                                    dead, sti, rq, sq, sj, ww, rsq, bown, bwk, 
+                                    bi, bcur, bw, bsp, jq, jj, jwk, fj, dq, dj, 
+                                    oq, oop, omode, oj, yq, yop, tq, top, af, 
+                                    sf, sctx, xf, cop, kj, pp, np, nbp, nres, 
+                                    dp, pf, pctx, pq, pj, pd, nq >>
 
 WaitSync(self) == fs_take(self) \/ z_fs_after(self)
 
@@ -4829,10 +4853,10 @@ z_ps(self) == /\ pc[self] = "z_ps"
                               ppPending, ppClosed, ppNotify, ppNC, ppBP, 
                               ppDepth, ppAlive, ppHeld, inItems, inClosed, 
                               inWaker, pollFn, chuteFn, pwTaken, nextPoll, 
-                              ppItem, h, dead, sti, rq, sq, sj, ww, jq, jj, 
-                              jwk, fj, dq, dj, oq, oop, omode, oj, yq, yop, tq, 
-                              top, af, wf, wop, xf, cop, kj, pp, np, nbp, nres, 
-                              dp, nq >>
+                              ppItem, pjLive, h, dead, sti, rq, sq, sj, ww, jq, 
+                              jj, jwk, fj, dq, dj, oq, oop, omode, oj, yq, yop, 
+                              tq, top, af, wf, wop, xf, cop, kj, pp, np, nbp, 
+                              nres, dp, nq >>
 
 z_ps_q(self) == /\ pc[self] = "z_ps_q"
                 /\ IF rv[self] \in {2, 4}
@@ -4886,10 +4910,10 @@ z_ps_q(self) == /\ pc[self] = "z_ps_q"
                                 ppPending, ppClosed, ppNotify, ppNC, ppBP, 
                                 ppDepth, ppAlive, ppHeld, inItems, inClosed, 
                                 inWaker, pollFn, chuteFn, pwTaken, nextPoll, 
-                                ppItem, dead, sti, rq, sq, sj, ww, jq, jj, jwk, 
-                                fj, dq, dj, oq, oop, omode, oj, yq, yop, tq, 
-                                top, af, wf, wop, xf, cop, kj, pp, np, nbp, 
-                                nres, dp, pf, pctx, pq, pj, pd, nq >>
+                                ppItem, pjLive, dead, sti, rq, sq, sj, ww, jq, 
+                                jj, jwk, fj, dq, dj, oq, oop, omode, oj, yq, 
+                                yop, tq, top, af, wf, wop, xf, cop, kj, pp, np, 
+                                nbp, nres, dp, pf, pctx, pq, pj, pd, nq >>
 
 z_ps_f(self) == /\ pc[self] = "z_ps_f"
                 /\ IF rv[self] = 5
@@ -4937,11 +4961,11 @@ z_ps_f(self) == /\ pc[self] = "z_ps_f"
                                 ppPending, ppClosed, ppNotify, ppNC, ppBP, 
                                 ppDepth, ppAlive, ppHeld, inItems, inClosed, 
                                 inWaker, pollFn, chuteFn, pwTaken, nextPoll, 
-                                ppItem, h, dead, sti, rq, sq, sj, rsq, bown, 
-                                bwk, bi, bcur, bw, bsp, jq, jj, jwk, fj, dq, 
-                                dj, oq, oop, omode, oj, yq, yop, tq, top, af, 
-                                wf, wop, xf, cop, kj, pp, np, nbp, nres, dp, 
-                                pf, pctx, pq, pj, pd, nq >>
+                                ppItem, pjLive, h, dead, sti, rq, sq, sj, rsq, 
+                                bown, bwk, bi, bcur, bw, bsp, jq, jj, jwk, fj, 
+                                dq, dj, oq, oop, omode, oj, yq, yop, tq, top, 
+                                af, wf, wop, xf, cop, kj, pp, np, nbp, nres, 
+                                dp, pf, pctx, pq, pj, pd, nq >>
 
 z_ps_s(self) == /\ pc[self] = "z_ps_s"
                 /\ /\ pctx' = [pctx EXCEPT ![self] = sctx[self]]
@@ -4969,11 +4993,11 @@ z_ps_s(self) == /\ pc[self] = "z_ps_s"
                                 atomic, strong, ppPending, ppClosed, ppNotify, 
                                 ppNC, ppBP, ppDepth, ppAlive, ppHeld, inItems, 
                                 inClosed, inWaker, pollFn, chuteFn, pwTaken, 
-                                nextPoll, ppItem, h, dead, sti, rq, sq, sj, ww, 
-                                rsq, bown, bwk, bi, bcur, bw, bsp, jq, jj, jwk, 
-                                fj, dq, dj, oq, oop, omode, oj, yq, yop, tq, 
-                                top, af, wf, wop, sf, sctx, xf, cop, kj, pp, 
-                                np, nbp, nres, dp, nq >>
+                                nextPoll, ppItem, pjLive, h, dead, sti, rq, sq, 
+                                sj, ww, rsq, bown, bwk, bi, bcur, bw, bsp, jq, 
+                                jj, jwk, fj, dq, dj, oq, oop, omode, oj, yq, 
+                                yop, tq, top, af, wf, wop, sf, sctx, xf, cop, 
+                                kj, pp, np, nbp, nres, dp, nq >>
 
 z_ps_s2(self) == /\ pc[self] = "z_ps_s2"
                  /\ IF rv[self] = 5
@@ -4999,11 +5023,12 @@ z_ps_s2(self) == /\ pc[self] = "z_ps_s2"
                                  atomic, strong, ppPending, ppClosed, ppNotify, 
                                  ppNC, ppBP, ppDepth, ppAlive, ppHeld, inItems, 
                                  inClosed, inWaker, pollFn, chuteFn, pwTaken, 
-                                 nextPoll, ppItem, h, dead, sti, rq, sq, sj, 
-                                 ww, rsq, bown, bwk, bi, bcur, bw, bsp, jq, jj, 
-                                 jwk, fj, dq, dj, oq, oop, omode, oj, yq, yop, 
-                                 tq, top, af, wf, wop, xf, cop, kj, pp, np, 
-                                 nbp, nres, dp, pf, pctx, pq, pj, pd, nq >>
+                                 nextPoll, ppItem, pjLive, h, dead, sti, rq, 
+                                 sq, sj, ww, rsq, bown, bwk, bi, bcur, bw, bsp, 
+                                 jq, jj, jwk, fj, dq, dj, oq, oop, omode, oj, 
+                                 yq, yop, tq, top, af, wf, wop, xf, cop, kj, 
+                                 pp, np, nbp, nres, dp, pf, pctx, pq, pj, pd, 
+                                 nq >>
 
 z_ps_panic(self) == /\ pc[self] = "z_ps_panic"
                     /\ rv' = [rv EXCEPT ![self] = 2]
@@ -5023,12 +5048,12 @@ z_ps_panic(self) == /\ pc[self] = "z_ps_panic"
                                     ppPending, ppClosed, ppNotify, ppNC, ppBP, 
                                     ppDepth, ppAlive, ppHeld, inItems, 
                                     inClosed, inWaker, pollFn, chuteFn, 
-                                    pwTaken, nextPoll, ppItem, h, dead, sti, 
-                                    rq, sq, sj, ww, rsq, bown, bwk, bi, bcur, 
-                                    bw, bsp, jq, jj, jwk, fj, dq, dj, oq, oop, 
-                                    omode, oj, yq, yop, tq, top, af, wf, wop, 
-                                    xf, cop, kj, pp, np, nbp, nres, dp, pf, 
-                                    pctx, pq, pj, pd, nq >>
+                                    pwTaken, nextPoll, ppItem, pjLive, h, dead, 
+                                    sti, rq, sq, sj, ww, rsq, bown, bwk, bi, 
+                                    bcur, bw, bsp, jq, jj, jwk, fj, dq, dj, oq, 
+                                    oop, omode, oj, yq, yop, tq, top, af, wf, 
+                                    wop, xf, cop, kj, pp, np, nbp, nres, dp, 
+                                    pf, pctx, pq, pj, pd, nq >>
 
 PollSync(self) == z_ps(self) \/ z_ps_q(self) \/ z_ps_f(self)
                      \/ z_ps_s(self) \/ z_ps_s2(self) \/ z_ps_panic(self)
@@ -5068,11 +5093,11 @@ z_df(self) == /\ pc[self] = "z_df"
                               ppPending, ppClosed, ppNotify, ppNC, ppBP, 
                               ppDepth, ppAlive, ppHeld, inItems, inClosed, 
                               inWaker, pollFn, chuteFn, pwTaken, nextPoll, 
-                              ppItem, dead, sti, rq, sq, sj, rsq, bown, bwk, 
-                              bi, bcur, bw, bsp, jq, jj, jwk, fj, dq, dj, oq, 
-                              oop, omode, oj, yq, yop, tq, top, af, wf, wop, 
-                              sf, sctx, cop, kj, pp, np, nbp, nres, dp, pf, 
-                              pctx, pq, pj, pd, nq >>
+                              ppItem, pjLive, dead, sti, rq, sq, sj, rsq, bown, 
+                              bwk, bi, bcur, bw, bsp, jq, jj, jwk, fj, dq, dj, 
+                              oq, oop, omode, oj, yq, yop, tq, top, af, wf, 
+                              wop, sf, sctx, cop, kj, pp, np, nbp, nres, dp, 
+                              pf, pctx, pq, pj, pd, nq >>
 
 z_df2(self) == /\ pc[self] = "z_df2"
                /\ rv' = [rv EXCEPT ![self] = 0]
@@ -5090,11 +5115,11 @@ z_df2(self) == /\ pc[self] = "z_df2"
                                atomic, strong, ppPending, ppClosed, ppNotify, 
                                ppNC, ppBP, ppDepth, ppAlive, ppHeld, inItems, 
                                inClosed, inWaker, pollFn, chuteFn, pwTaken, 
-                               nextPoll, ppItem, h, dead, sti, rq, sq, sj, ww, 
-                               rsq, bown, bwk, bi, bcur, bw, bsp, jq, jj, jwk, 
-                               fj, dq, dj, oq, oop, omode, oj, yq, yop, tq, 
-                               top, af, wf, wop, sf, sctx, cop, kj, pp, np, 
-                               nbp, nres, dp, pf, pctx, pq, pj, pd, nq >>
+                               nextPoll, ppItem, pjLive, h, dead, sti, rq, sq, 
+                               sj, ww, rsq, bown, bwk, bi, bcur, bw, bsp, jq, 
+                               jj, jwk, fj, dq, dj, oq, oop, omode, oj, yq, 
+                               yop, tq, top, af, wf, wop, sf, sctx, cop, kj, 
+                               pp, np, nbp, nres, dp, pf, pctx, pq, pj, pd, nq >>
 
 DropFuture(self) == z_df(self) \/ z_df2(self)
 
@@ -5103,6 +5128,7 @@ z_pcr1(self) == /\ pc[self] = "z_pcr1"
                 /\ strong' = [strong EXCEPT ![O(cop[self])] = strong[O(cop[self])] + (IF K(cop[self]) = "pipe" THEN 2 ELSE 1)]
                 /\ ppAlive' = [ppAlive EXCEPT ![OpTab[cop[self]].p] = (K(cop[self]) = "pipe")]
                 /\ jkind' = [jkind EXCEPT ![NewPoll(OpTab[cop[self]].p)] = "fut"]
+                /\ pjLive' = [pjLive EXCEPT ![NewPoll(OpTab[cop[self]].p)] = TRUE]
                 /\ nextPoll' = [nextPoll EXCEPT ![OpTab[cop[self]].p] = nextPoll[OpTab[cop[self]].p] + 1]
                 /\ /\ sj' = [sj EXCEPT ![self] = NewPoll(OpTab[cop[self]].p)]
                    /\ sq' = [sq EXCEPT ![self] = O(cop[self])]
@@ -5149,11 +5175,11 @@ z_pcr2(self) == /\ pc[self] = "z_pcr2"
                                 atomic, ppPending, ppClosed, ppNotify, ppNC, 
                                 ppBP, ppDepth, ppAlive, ppHeld, inItems, 
                                 inClosed, inWaker, pollFn, chuteFn, pwTaken, 
-                                nextPoll, ppItem, h, dead, sti, rq, sq, sj, ww, 
-                                rsq, bown, bwk, bi, bcur, bw, bsp, jq, jj, jwk, 
-                                fj, dq, dj, oq, oop, omode, oj, tq, top, af, 
-                                wf, wop, sf, sctx, xf, cop, kj, pp, np, nbp, 
-                                nres, dp, pf, pctx, pq, pj, pd, nq >>
+                                nextPoll, ppItem, pjLive, h, dead, sti, rq, sq, 
+                                sj, ww, rsq, bown, bwk, bi, bcur, bw, bsp, jq, 
+                                jj, jwk, fj, dq, dj, oq, oop, omode, oj, tq, 
+                                top, af, wf, wop, sf, sctx, xf, cop, kj, pp, 
+                                np, nbp, nres, dp, pf, pctx, pq, pj, pd, nq >>
 
 z_pcr3(self) == /\ pc[self] = "z_pcr3"
                 /\ pc' = [pc EXCEPT ![self] = Head(stack[self]).pc]
@@ -5170,11 +5196,12 @@ z_pcr3(self) == /\ pc[self] = "z_pcr3"
                                 atomic, strong, ppPending, ppClosed, ppNotify, 
                                 ppNC, ppBP, ppDepth, ppAlive, ppHeld, inItems, 
                                 inClosed, inWaker, pollFn, chuteFn, pwTaken, 
-                                nextPoll, ppItem, h, dead, sti, rq, sq, sj, ww, 
-                                rsq, bown, bwk, bi, bcur, bw, bsp, jq, jj, jwk, 
-                                fj, dq, dj, oq, oop, omode, oj, yq, yop, tq, 
-                                top, af, wf, wop, sf, sctx, xf, kj, pp, np, 
-                                nbp, nres, dp, pf, pctx, pq, pj, pd, nq >>
+                                nextPoll, ppItem, pjLive, h, dead, sti, rq, sq, 
+                                sj, ww, rsq, bown, bwk, bi, bcur, bw, bsp, jq, 
+                                jj, jwk, fj, dq, dj, oq, oop, omode, oj, yq, 
+                                yop, tq, top, af, wf, wop, sf, sctx, xf, kj, 
+                                pp, np, nbp, nres, dp, pf, pctx, pq, pj, pd, 
+                                nq >>
 
 PipeCreate(self) == z_pcr1(self) \/ z_pcr2(self) \/ z_pcr3(self)
 
@@ -5206,11 +5233,11 @@ pp_fn(self) == /\ pc[self] = "pp_fn"
                                atomic, strong, ppPending, ppClosed, ppNotify, 
                                ppNC, ppBP, ppDepth, ppAlive, inItems, inClosed, 
                                inWaker, pollFn, chuteFn, pwTaken, nextPoll, 
-                               ppItem, h, dead, sti, rq, sq, sj, ww, rsq, bown, 
-                               bwk, bi, bcur, bw, bsp, jq, jj, jwk, fj, dq, dj, 
-                               oq, oop, omode, oj, yq, yop, tq, top, af, wf, 
-                               wop, sf, sctx, xf, cop, np, nbp, nres, dp, pf, 
-                               pctx, pq, pj, pd, nq >>
+                               ppItem, pjLive, h, dead, sti, rq, sq, sj, ww, 
+                               rsq, bown, bwk, bi, bcur, bw, bsp, jq, jj, jwk, 
+                               fj, dq, dj, oq, oop, omode, oj, yq, yop, tq, 
+                               top, af, wf, wop, sf, sctx, xf, cop, np, nbp, 
+                               nres, dp, pf, pctx, pq, pj, pd, nq >>
 
 pp_bp(self) == /\ pc[self] = "pp_bp"
                /\ IF Len(ppPending[pp[self]]) >= ppDepth[pp[self]]
@@ -5236,11 +5263,11 @@ pp_bp(self) == /\ pc[self] = "pp_bp"
                                atomic, strong, ppPending, ppClosed, ppNotify, 
                                ppNC, ppDepth, ppAlive, inItems, inClosed, 
                                inWaker, pollFn, chuteFn, pwTaken, nextPoll, 
-                               ppItem, h, dead, sti, rq, sq, sj, ww, rsq, bown, 
-                               bwk, bi, bcur, bw, bsp, jq, jj, jwk, fj, dq, dj, 
-                               oq, oop, omode, oj, yq, yop, tq, top, af, wf, 
-                               wop, sf, sctx, xf, cop, np, nbp, nres, dp, pf, 
-                               pctx, pq, pj, pd, nq >>
+                               ppItem, pjLive, h, dead, sti, rq, sq, sj, ww, 
+                               rsq, bown, bwk, bi, bcur, bw, bsp, jq, jj, jwk, 
+                               fj, dq, dj, oq, oop, omode, oj, yq, yop, tq, 
+                               top, af, wf, wop, sf, sctx, xf, cop, np, nbp, 
+                               nres, dp, pf, pctx, pq, pj, pd, nq >>
 
 pp_clear(self) == /\ pc[self] = "pp_clear"
                   /\ IF FixD5 /\ ppClosed[pp[self]]
@@ -5261,12 +5288,12 @@ pp_clear(self) == /\ pc[self] = "pp_clear"
                                   dsl, atomic, strong, ppPending, ppClosed, 
                                   ppNotify, ppBP, ppDepth, ppAlive, inItems, 
                                   inClosed, inWaker, pollFn, chuteFn, pwTaken, 
-                                  nextPoll, ppItem, h, stack, dead, sti, rq, 
-                                  sq, sj, ww, rsq, bown, bwk, bi, bcur, bw, 
-                                  bsp, jq, jj, jwk, fj, dq, dj, oq, oop, omode, 
-                                  oj, yq, yop, tq, top, af, wf, wop, sf, sctx, 
-                                  xf, cop, kj, pp, np, nbp, nres, dp, pf, pctx, 
-                                  pq, pj, pd, nq >>
+                                  nextPoll, ppItem, pjLive, h, stack, dead, 
+                                  sti, rq, sq, sj, ww, rsq, bown, bwk, bi, 
+                                  bcur, bw, bsp, jq, jj, jwk, fj, dq, dj, oq, 
+                                  oop, omode, oj, yq, yop, tq, top, af, wf, 
+                                  wop, sf, sctx, xf, cop, kj, pp, np, nbp, 
+                                  nres, dp, pf, pctx, pq, pj, pd, nq >>
 
 pp_in(self) == /\ pc[self] = "pp_in"
                /\ IF inItems[pp[self]] # << >>
@@ -5291,11 +5318,11 @@ pp_in(self) == /\ pc[self] = "pp_in"
                                atomic, strong, ppPending, ppClosed, ppNotify, 
                                ppNC, ppBP, ppDepth, ppAlive, ppHeld, inClosed, 
                                inWaker, pollFn, chuteFn, pwTaken, nextPoll, 
-                               stack, dead, sti, rq, sq, sj, ww, rsq, bown, 
-                               bwk, bi, bcur, bw, bsp, jq, jj, jwk, fj, dq, dj, 
-                               oq, oop, omode, oj, yq, yop, tq, top, af, wf, 
-                               wop, sf, sctx, xf, cop, kj, pp, np, nbp, nres, 
-                               dp, pf, pctx, pq, pj, pd, nq >>
+                               pjLive, stack, dead, sti, rq, sq, sj, ww, rsq, 
+                               bown, bwk, bi, bcur, bw, bsp, jq, jj, jwk, fj, 
+                               dq, dj, oq, oop, omode, oj, yq, yop, tq, top, 
+                               af, wf, wop, sf, sctx, xf, cop, kj, pp, np, nbp, 
+                               nres, dp, pf, pctx, pq, pj, pd, nq >>
 
 pp_in2(self) == /\ pc[self] = "pp_in2"
                 /\ inWaker' = [inWaker EXCEPT ![pp[self]] = PW(kj[self])]
@@ -5320,12 +5347,12 @@ pp_in2(self) == /\ pc[self] = "pp_in2"
                                 dnState, dnWaker, parkTok, rv, rwb, rneed, dsl, 
                                 atomic, strong, ppPending, ppClosed, ppNotify, 
                                 ppNC, ppBP, ppDepth, ppAlive, ppHeld, inClosed, 
-                                pollFn, chuteFn, pwTaken, nextPoll, stack, 
-                                dead, sti, rq, sq, sj, ww, rsq, bown, bwk, bi, 
-                                bcur, bw, bsp, jq, jj, jwk, fj, dq, dj, oq, 
-                                oop, omode, oj, yq, yop, tq, top, af, wf, wop, 
-                                sf, sctx, xf, cop, kj, pp, np, nbp, nres, dp, 
-                                pf, pctx, pq, pj, pd, nq >>
+                                pollFn, chuteFn, pwTaken, nextPoll, pjLive, 
+                                stack, dead, sti, rq, sq, sj, ww, rsq, bown, 
+                                bwk, bi, bcur, bw, bsp, jq, jj, jwk, fj, dq, 
+                                dj, oq, oop, omode, oj, yq, yop, tq, top, af, 
+                                wf, wop, sf, sctx, xf, cop, kj, pp, np, nbp, 
+                                nres, dp, pf, pctx, pq, pj, pd, nq >>
 
 pp_reg(self) == /\ pc[self] = "pp_reg"
                 /\ IF FixD5 /\ ppClosed[pp[self]]
@@ -5350,11 +5377,11 @@ pp_reg(self) == /\ pc[self] = "pp_reg"
                                 atomic, strong, ppPending, ppClosed, ppNotify, 
                                 ppBP, ppDepth, ppAlive, inItems, inClosed, 
                                 inWaker, pollFn, chuteFn, pwTaken, nextPoll, 
-                                ppItem, h, dead, sti, rq, sq, sj, ww, rsq, 
-                                bown, bwk, bi, bcur, bw, bsp, jq, jj, jwk, fj, 
-                                dq, dj, oq, oop, omode, oj, yq, yop, tq, top, 
-                                af, wf, wop, sf, sctx, xf, cop, np, nbp, nres, 
-                                dp, pf, pctx, pq, pj, pd, nq >>
+                                ppItem, pjLive, h, dead, sti, rq, sq, sj, ww, 
+                                rsq, bown, bwk, bi, bcur, bw, bsp, jq, jj, jwk, 
+                                fj, dq, dj, oq, oop, omode, oj, yq, yop, tq, 
+                                top, af, wf, wop, sf, sctx, xf, cop, np, nbp, 
+                                nres, dp, pf, pctx, pq, pj, pd, nq >>
 
 pp_end(self) == /\ pc[self] = "pp_end"
                 /\ ppClosed' = [ppClosed EXCEPT ![pp[self]] = TRUE]
@@ -5372,12 +5399,12 @@ pp_end(self) == /\ pc[self] = "pp_end"
                                 dnState, dnWaker, rv, rwb, rneed, dsl, atomic, 
                                 strong, ppPending, ppNC, ppBP, ppDepth, 
                                 ppAlive, inItems, inClosed, inWaker, pollFn, 
-                                chuteFn, pwTaken, nextPoll, ppItem, h, stack, 
-                                dead, sti, rq, sq, sj, ww, rsq, bown, bwk, bi, 
-                                bcur, bw, bsp, jq, jj, jwk, fj, dq, dj, oq, 
-                                oop, omode, oj, yq, yop, tq, top, af, wf, wop, 
-                                sf, sctx, xf, cop, kj, pp, np, nbp, nres, dp, 
-                                pf, pctx, pq, pj, pd, nq >>
+                                chuteFn, pwTaken, nextPoll, ppItem, pjLive, h, 
+                                stack, dead, sti, rq, sq, sj, ww, rsq, bown, 
+                                bwk, bi, bcur, bw, bsp, jq, jj, jwk, fj, dq, 
+                                dj, oq, oop, omode, oj, yq, yop, tq, top, af, 
+                                wf, wop, sf, sctx, xf, cop, kj, pp, np, nbp, 
+                                nres, dp, pf, pctx, pq, pj, pd, nq >>
 
 pp_closed(self) == /\ pc[self] = "pp_closed"
                    /\ parkTok' = Unpark(parkTok, TaskOf(ppNotify[pp[self]]))
@@ -5395,12 +5422,12 @@ pp_closed(self) == /\ pc[self] = "pp_closed"
                                    rv, rwb, rneed, dsl, atomic, strong, 
                                    ppPending, ppClosed, ppNC, ppBP, ppDepth, 
                                    ppAlive, inItems, inClosed, inWaker, pollFn, 
-                                   chuteFn, pwTaken, nextPoll, ppItem, h, 
-                                   stack, dead, sti, rq, sq, sj, ww, rsq, bown, 
-                                   bwk, bi, bcur, bw, bsp, jq, jj, jwk, fj, dq, 
-                                   dj, oq, oop, omode, oj, yq, yop, tq, top, 
-                                   af, wf, wop, sf, sctx, xf, cop, kj, pp, np, 
-                                   nbp, nres, dp, pf, pctx, pq, pj, pd, nq >>
+                                   chuteFn, pwTaken, nextPoll, ppItem, pjLive, 
+                                   h, stack, dead, sti, rq, sq, sj, ww, rsq, 
+                                   bown, bwk, bi, bcur, bw, bsp, jq, jj, jwk, 
+                                   fj, dq, dj, oq, oop, omode, oj, yq, yop, tq, 
+                                   top, af, wf, wop, sf, sctx, xf, cop, kj, pp, 
+                                   np, nbp, nres, dp, pf, pctx, pq, pj, pd, nq >>
 
 pp_proc(self) == /\ pc[self] = "pp_proc"
                  /\ h' = ObsProcStart(h, self, pp[self], ppItem[kj[self]])
@@ -5416,12 +5443,12 @@ pp_proc(self) == /\ pc[self] = "pp_proc"
                                  dsl, atomic, strong, ppPending, ppClosed, 
                                  ppNotify, ppNC, ppBP, ppDepth, ppAlive, 
                                  ppHeld, inItems, inClosed, inWaker, pollFn, 
-                                 chuteFn, pwTaken, nextPoll, ppItem, stack, 
-                                 dead, sti, rq, sq, sj, ww, rsq, bown, bwk, bi, 
-                                 bcur, bw, bsp, jq, jj, jwk, fj, dq, dj, oq, 
-                                 oop, omode, oj, yq, yop, tq, top, af, wf, wop, 
-                                 sf, sctx, xf, cop, kj, pp, np, nbp, nres, dp, 
-                                 pf, pctx, pq, pj, pd, nq >>
+                                 chuteFn, pwTaken, nextPoll, ppItem, pjLive, 
+                                 stack, dead, sti, rq, sq, sj, ww, rsq, bown, 
+                                 bwk, bi, bcur, bw, bsp, jq, jj, jwk, fj, dq, 
+                                 dj, oq, oop, omode, oj, yq, yop, tq, top, af, 
+                                 wf, wop, sf, sctx, xf, cop, kj, pp, np, nbp, 
+                                 nres, dp, pf, pctx, pq, pj, pd, nq >>
 
 pp_body(self) == /\ pc[self] = "pp_body"
                  /\ h' = ObsProcEnd(h, self, pp[self], ppItem[kj[self]])
@@ -5439,12 +5466,12 @@ pp_body(self) == /\ pc[self] = "pp_body"
                                  dsl, atomic, strong, ppPending, ppClosed, 
                                  ppNotify, ppNC, ppBP, ppDepth, ppAlive, 
                                  ppHeld, inItems, inClosed, inWaker, pollFn, 
-                                 chuteFn, pwTaken, nextPoll, ppItem, stack, 
-                                 dead, sti, rq, sq, sj, ww, rsq, bown, bwk, bi, 
-                                 bcur, bw, bsp, jq, jj, jwk, fj, dq, dj, oq, 
-                                 oop, omode, oj, yq, yop, tq, top, af, wf, wop, 
-                                 sf, sctx, xf, cop, kj, pp, np, nbp, nres, dp, 
-                                 pf, pctx, pq, pj, pd, nq >>
+                                 chuteFn, pwTaken, nextPoll, ppItem, pjLive, 
+                                 stack, dead, sti, rq, sq, sj, ww, rsq, bown, 
+                                 bwk, bi, bcur, bw, bsp, jq, jj, jwk, fj, dq, 
+                                 dj, oq, oop, omode, oj, yq, yop, tq, top, af, 
+                                 wf, wop, sf, sctx, xf, cop, kj, pp, np, nbp, 
+                                 nres, dp, pf, pctx, pq, pj, pd, nq >>
 
 pp_push(self) == /\ pc[self] = "pp_push"
                  /\ ppPending' = [ppPending EXCEPT ![pp[self]] = Append(ppPending[pp[self]], 10 * ppItem[kj[self]])]
@@ -5461,12 +5488,13 @@ pp_push(self) == /\ pc[self] = "pp_push"
                                  dnState, dnWaker, rv, rwb, rneed, dsl, atomic, 
                                  strong, ppClosed, ppNC, ppBP, ppDepth, 
                                  ppAlive, ppHeld, inItems, inClosed, inWaker, 
-                                 pollFn, chuteFn, pwTaken, nextPoll, ppItem, h, 
-                                 stack, dead, sti, rq, sq, sj, ww, rsq, bown, 
-                                 bwk, bi, bcur, bw, bsp, jq, jj, jwk, fj, dq, 
-                                 dj, oq, oop, omode, oj, yq, yop, tq, top, af, 
-                                 wf, wop, sf, sctx, xf, cop, kj, pp, np, nbp, 
-                                 nres, dp, pf, pctx, pq, pj, pd, nq >>
+                                 pollFn, chuteFn, pwTaken, nextPoll, ppItem, 
+                                 pjLive, h, stack, dead, sti, rq, sq, sj, ww, 
+                                 rsq, bown, bwk, bi, bcur, bw, bsp, jq, jj, 
+                                 jwk, fj, dq, dj, oq, oop, omode, oj, yq, yop, 
+                                 tq, top, af, wf, wop, sf, sctx, xf, cop, kj, 
+                                 pp, np, nbp, nres, dp, pf, pctx, pq, pj, pd, 
+                                 nq >>
 
 pi_in(self) == /\ pc[self] = "pi_in"
                /\ IF inItems[pp[self]] # << >>
@@ -5491,11 +5519,11 @@ pi_in(self) == /\ pc[self] = "pi_in"
                                atomic, strong, ppPending, ppClosed, ppNotify, 
                                ppNC, ppBP, ppDepth, ppAlive, ppHeld, inClosed, 
                                inWaker, pollFn, chuteFn, pwTaken, nextPoll, 
-                               stack, dead, sti, rq, sq, sj, ww, rsq, bown, 
-                               bwk, bi, bcur, bw, bsp, jq, jj, jwk, fj, dq, dj, 
-                               oq, oop, omode, oj, yq, yop, tq, top, af, wf, 
-                               wop, sf, sctx, xf, cop, kj, pp, np, nbp, nres, 
-                               dp, pf, pctx, pq, pj, pd, nq >>
+                               pjLive, stack, dead, sti, rq, sq, sj, ww, rsq, 
+                               bown, bwk, bi, bcur, bw, bsp, jq, jj, jwk, fj, 
+                               dq, dj, oq, oop, omode, oj, yq, yop, tq, top, 
+                               af, wf, wop, sf, sctx, xf, cop, kj, pp, np, nbp, 
+                               nres, dp, pf, pctx, pq, pj, pd, nq >>
 
 pi_in2(self) == /\ pc[self] = "pi_in2"
                 /\ inWaker' = [inWaker EXCEPT ![pp[self]] = PW(kj[self])]
@@ -5525,12 +5553,12 @@ pi_in2(self) == /\ pc[self] = "pi_in2"
                                 dnState, dnWaker, parkTok, rwb, rneed, dsl, 
                                 atomic, strong, ppPending, ppClosed, ppNotify, 
                                 ppNC, ppBP, ppDepth, ppAlive, ppHeld, inClosed, 
-                                pollFn, chuteFn, pwTaken, nextPoll, dead, sti, 
-                                rq, sq, sj, ww, rsq, bown, bwk, bi, bcur, bw, 
-                                bsp, jq, jj, jwk, fj, dq, dj, oq, oop, omode, 
-                                oj, yq, yop, tq, top, af, wf, wop, sf, sctx, 
-                                xf, cop, np, nbp, nres, dp, pf, pctx, pq, pj, 
-                                pd, nq >>
+                                pollFn, chuteFn, pwTaken, nextPoll, pjLive, 
+                                dead, sti, rq, sq, sj, ww, rsq, bown, bwk, bi, 
+                                bcur, bw, bsp, jq, jj, jwk, fj, dq, dj, oq, 
+                                oop, omode, oj, yq, yop, tq, top, af, wf, wop, 
+                                sf, sctx, xf, cop, np, nbp, nres, dp, pf, pctx, 
+                                pq, pj, pd, nq >>
 
 pp_dealloc(self) == /\ pc[self] = "pp_dealloc"
                     /\ IF pollFn[pp[self]]
@@ -5555,12 +5583,12 @@ pp_dealloc(self) == /\ pc[self] = "pp_dealloc"
                                     ppPending, ppClosed, ppNotify, ppNC, ppBP, 
                                     ppDepth, ppAlive, ppHeld, inItems, 
                                     inClosed, inWaker, chuteFn, pwTaken, 
-                                    nextPoll, ppItem, dead, sti, rq, sq, sj, 
-                                    ww, rsq, bown, bwk, bi, bcur, bw, bsp, jq, 
-                                    jj, jwk, fj, dq, dj, oq, oop, omode, oj, 
-                                    yq, yop, tq, top, af, wf, wop, sf, sctx, 
-                                    xf, cop, np, nbp, nres, dp, pf, pctx, pq, 
-                                    pj, pd, nq >>
+                                    nextPoll, ppItem, pjLive, dead, sti, rq, 
+                                    sq, sj, ww, rsq, bown, bwk, bi, bcur, bw, 
+                                    bsp, jq, jj, jwk, fj, dq, dj, oq, oop, 
+                                    omode, oj, yq, yop, tq, top, af, wf, wop, 
+                                    sf, sctx, xf, cop, np, nbp, nres, dp, pf, 
+                                    pctx, pq, pj, pd, nq >>
 
 PipePoll(self) == pp_fn(self) \/ pp_bp(self) \/ pp_clear(self)
                      \/ pp_in(self) \/ pp_in2(self) \/ pp_reg(self)
@@ -5603,12 +5631,12 @@ cn_poll(self) == /\ pc[self] = "cn_poll"
                                  dnState, dnWaker, parkTok, rwb, rneed, dsl, 
                                  atomic, strong, ppClosed, ppNC, ppDepth, 
                                  ppAlive, ppHeld, inItems, inClosed, inWaker, 
-                                 pollFn, chuteFn, pwTaken, nextPoll, ppItem, h, 
-                                 dead, sti, rq, sq, sj, rsq, bown, bwk, bi, 
-                                 bcur, bw, bsp, jq, jj, jwk, fj, dq, dj, oq, 
-                                 oop, omode, oj, yq, yop, tq, top, af, wf, wop, 
-                                 sf, sctx, xf, cop, kj, pp, np, dp, pf, pctx, 
-                                 pq, pj, pd, nq >>
+                                 pollFn, chuteFn, pwTaken, nextPoll, ppItem, 
+                                 pjLive, h, dead, sti, rq, sq, sj, rsq, bown, 
+                                 bwk, bi, bcur, bw, bsp, jq, jj, jwk, fj, dq, 
+                                 dj, oq, oop, omode, oj, yq, yop, tq, top, af, 
+                                 wf, wop, sf, sctx, xf, cop, kj, pp, np, dp, 
+                                 pf, pctx, pq, pj, pd, nq >>
 
 z_cn_after(self) == /\ pc[self] = "z_cn_after"
                     /\ IF rv[self] = 5
@@ -5632,11 +5660,11 @@ z_cn_after(self) == /\ pc[self] = "z_cn_after"
                                     strong, ppPending, ppClosed, ppNotify, 
                                     ppNC, ppBP, ppDepth, ppAlive, ppHeld, 
                                     inItems, inClosed, inWaker, pollFn, 
-                                    chuteFn, pwTaken, nextPoll, ppItem, dead, 
-                                    sti, rq, sq, sj, ww, rsq, bown, bwk, bi, 
-                                    bcur, bw, bsp, jq, jj, jwk, fj, dq, dj, oq, 
-                                    oop, omode, oj, yq, yop, tq, top, af, wf, 
-                                    wop, sf, sctx, xf, cop, kj, pp, dp, pf, 
+                                    chuteFn, pwTaken, nextPoll, ppItem, pjLive, 
+                                    dead, sti, rq, sq, sj, ww, rsq, bown, bwk, 
+                                    bi, bcur, bw, bsp, jq, jj, jwk, fj, dq, dj, 
+                                    oq, oop, omode, oj, yq, yop, tq, top, af, 
+                                    wf, wop, sf, sctx, xf, cop, kj, pp, dp, pf, 
                                     pctx, pq, pj, pd, nq >>
 
 cn_park(self) == /\ pc[self] = "cn_park"
@@ -5654,12 +5682,12 @@ cn_park(self) == /\ pc[self] = "cn_park"
                                  strong, ppPending, ppClosed, ppNotify, ppNC, 
                                  ppBP, ppDepth, ppAlive, ppHeld, inItems, 
                                  inClosed, inWaker, pollFn, chuteFn, pwTaken, 
-                                 nextPoll, ppItem, h, stack, dead, sti, rq, sq, 
-                                 sj, ww, rsq, bown, bwk, bi, bcur, bw, bsp, jq, 
-                                 jj, jwk, fj, dq, dj, oq, oop, omode, oj, yq, 
-                                 yop, tq, top, af, wf, wop, sf, sctx, xf, cop, 
-                                 kj, pp, np, nbp, nres, dp, pf, pctx, pq, pj, 
-                                 pd, nq >>
+                                 nextPoll, ppItem, pjLive, h, stack, dead, sti, 
+                                 rq, sq, sj, ww, rsq, bown, bwk, bi, bcur, bw, 
+                                 bsp, jq, jj, jwk, fj, dq, dj, oq, oop, omode, 
+                                 oj, yq, yop, tq, top, af, wf, wop, sf, sctx, 
+                                 xf, cop, kj, pp, np, nbp, nres, dp, pf, pctx, 
+                                 pq, pj, pd, nq >>
 
 PipeNext(self) == cn_poll(self) \/ z_cn_after(self) \/ cn_park(self)
 
@@ -5686,12 +5714,12 @@ ps_drop(self) == /\ pc[self] = "ps_drop"
                                  dnState, dnWaker, parkTok, rv, rwb, rneed, 
                                  dsl, strong, ppNotify, ppNC, ppBP, ppDepth, 
                                  ppAlive, ppHeld, inItems, inClosed, inWaker, 
-                                 pollFn, chuteFn, pwTaken, nextPoll, ppItem, h, 
-                                 dead, sti, rq, sq, sj, rsq, bown, bwk, bi, 
-                                 bcur, bw, bsp, jq, jj, jwk, fj, dq, dj, oq, 
-                                 oop, omode, oj, yq, yop, tq, top, af, wf, wop, 
-                                 sf, sctx, xf, cop, kj, pp, np, nbp, nres, dp, 
-                                 pf, pctx, pq, pj, pd, nq >>
+                                 pollFn, chuteFn, pwTaken, nextPoll, ppItem, 
+                                 pjLive, h, dead, sti, rq, sq, sj, rsq, bown, 
+                                 bwk, bi, bcur, bw, bsp, jq, jj, jwk, fj, dq, 
+                                 dj, oq, oop, omode, oj, yq, yop, tq, top, af, 
+                                 wf, wop, sf, sctx, xf, cop, kj, pp, np, nbp, 
+                                 nres, dp, pf, pctx, pq, pj, pd, nq >>
 
 z_ps2(self) == /\ pc[self] = "z_ps2"
                /\ ppNC' = [ppNC EXCEPT ![dp[self]] = NoW]
@@ -5714,12 +5742,12 @@ z_ps2(self) == /\ pc[self] = "z_ps2"
                                parkTok, rv, rwb, rneed, dsl, atomic, strong, 
                                ppPending, ppClosed, ppNotify, ppBP, ppDepth, 
                                ppAlive, ppHeld, inItems, inClosed, inWaker, 
-                               pollFn, chuteFn, pwTaken, nextPoll, ppItem, h, 
-                               dead, sti, rq, ww, rsq, bown, bwk, bi, bcur, bw, 
-                               bsp, jq, jj, jwk, fj, dq, dj, oq, oop, omode, 
-                               oj, yq, yop, tq, top, af, wf, wop, sf, sctx, xf, 
-                               cop, kj, pp, np, nbp, nres, dp, pf, pctx, pq, 
-                               pj, pd, nq >>
+                               pollFn, chuteFn, pwTaken, nextPoll, ppItem, 
+                               pjLive, h, dead, sti, rq, ww, rsq, bown, bwk, 
+                               bi, bcur, bw, bsp, jq, jj, jwk, fj, dq, dj, oq, 
+                               oop, omode, oj, yq, yop, tq, top, af, wf, wop, 
+                               sf, sctx, xf, cop, kj, pp, np, nbp, nres, dp, 
+                               pf, pctx, pq, pj, pd, nq >>
 
 z_ps3(self) == /\ pc[self] = "z_ps3"
                /\ atomic' = [atomic EXCEPT ![self] = FALSE]
@@ -5737,11 +5765,11 @@ z_ps3(self) == /\ pc[self] = "z_ps3"
                                strong, ppPending, ppClosed, ppNotify, ppNC, 
                                ppBP, ppDepth, ppHeld, inItems, inClosed, 
                                inWaker, pollFn, chuteFn, pwTaken, nextPoll, 
-                               ppItem, h, stack, dead, sti, rq, sq, sj, ww, 
-                               rsq, bown, bwk, bi, bcur, bw, bsp, jq, jj, jwk, 
-                               fj, dq, dj, oq, oop, omode, oj, yq, yop, tq, 
-                               top, af, wf, wop, sf, sctx, xf, cop, kj, pp, np, 
-                               nbp, nres, dp, pf, pctx, pq, pj, pd, nq >>
+                               ppItem, pjLive, h, stack, dead, sti, rq, sq, sj, 
+                               ww, rsq, bown, bwk, bi, bcur, bw, bsp, jq, jj, 
+                               jwk, fj, dq, dj, oq, oop, omode, oj, yq, yop, 
+                               tq, top, af, wf, wop, sf, sctx, xf, cop, kj, pp, 
+                               np, nbp, nres, dp, pf, pctx, pq, pj, pd, nq >>
 
 z_ps_gc(self) == /\ pc[self] = "z_ps_gc"
                  /\ IF pollFn[dp[self]] /\ ~CtxAlive(dp[self])
@@ -5763,12 +5791,12 @@ z_ps_gc(self) == /\ pc[self] = "z_ps_gc"
                                  dsl, atomic, strong, ppPending, ppClosed, 
                                  ppNotify, ppNC, ppBP, ppDepth, ppAlive, 
                                  ppHeld, inItems, inClosed, inWaker, chuteFn, 
-                                 pwTaken, nextPoll, ppItem, dead, sti, rq, sq, 
-                                 sj, ww, rsq, bown, bwk, bi, bcur, bw, bsp, jq, 
-                                 jj, jwk, fj, dq, dj, oq, oop, omode, oj, yq, 
-                                 yop, tq, top, af, wf, wop, sf, sctx, xf, cop, 
-                                 kj, pp, np, nbp, nres, pf, pctx, pq, pj, pd, 
-                                 nq >>
+                                 pwTaken, nextPoll, ppItem, pjLive, dead, sti, 
+                                 rq, sq, sj, ww, rsq, bown, bwk, bi, bcur, bw, 
+                                 bsp, jq, jj, jwk, fj, dq, dj, oq, oop, omode, 
+                                 oj, yq, yop, tq, top, af, wf, wop, sf, sctx, 
+                                 xf, cop, kj, pp, np, nbp, nres, pf, pctx, pq, 
+                                 pj, pd, nq >>
 
 PipeDrop(self) == ps_drop(self) \/ z_ps2(self) \/ z_ps3(self)
                      \/ z_ps_gc(self)
@@ -5787,12 +5815,12 @@ ds_max(self) == /\ pc[self] = "ds_max"
                                 atomic, strong, ppPending, ppClosed, ppNotify, 
                                 ppNC, ppBP, ppDepth, ppAlive, ppHeld, inItems, 
                                 inClosed, inWaker, pollFn, chuteFn, pwTaken, 
-                                nextPoll, ppItem, h, stack, dead, sti, rq, sq, 
-                                sj, ww, rsq, bown, bwk, bi, bcur, bw, bsp, jq, 
-                                jj, jwk, fj, dq, dj, oq, oop, omode, oj, yq, 
-                                yop, tq, top, af, wf, wop, sf, sctx, xf, cop, 
-                                kj, pp, np, nbp, nres, dp, pf, pctx, pq, pj, 
-                                pd, nq >>
+                                nextPoll, ppItem, pjLive, h, stack, dead, sti, 
+                                rq, sq, sj, ww, rsq, bown, bwk, bi, bcur, bw, 
+                                bsp, jq, jj, jwk, fj, dq, dj, oq, oop, omode, 
+                                oj, yq, yop, tq, top, af, wf, wop, sf, sctx, 
+                                xf, cop, kj, pp, np, nbp, nres, dp, pf, pctx, 
+                                pq, pj, pd, nq >>
 
 ds_pop(self) == /\ pc[self] = "ds_pop"
                 /\ thrHeld = ""
@@ -5815,12 +5843,12 @@ ds_pop(self) == /\ pc[self] = "ds_pop"
                                 parkTok, rwb, rneed, atomic, strong, ppPending, 
                                 ppClosed, ppNotify, ppNC, ppBP, ppDepth, 
                                 ppAlive, ppHeld, inItems, inClosed, inWaker, 
-                                pollFn, chuteFn, pwTaken, nextPoll, ppItem, h, 
-                                dead, sti, rq, sq, sj, ww, rsq, bown, bwk, bi, 
-                                bcur, bw, bsp, jq, jj, jwk, fj, dq, dj, oq, 
-                                oop, omode, oj, yq, yop, tq, top, af, wf, wop, 
-                                sf, sctx, xf, cop, kj, pp, np, nbp, nres, dp, 
-                                pf, pctx, pq, pj, pd, nq >>
+                                pollFn, chuteFn, pwTaken, nextPoll, ppItem, 
+                                pjLive, h, dead, sti, rq, sq, sj, ww, rsq, 
+                                bown, bwk, bi, bcur, bw, bsp, jq, jj, jwk, fj, 
+                                dq, dj, oq, oop, omode, oj, yq, yop, tq, top, 
+                                af, wf, wop, sf, sctx, xf, cop, kj, pp, np, 
+                                nbp, nres, dp, pf, pctx, pq, pj, pd, nq >>
 
 ds_join(self) == /\ pc[self] = "ds_join"
                  /\ pfin[Head(dsl[self])]
@@ -5843,12 +5871,12 @@ ds_join(self) == /\ pc[self] = "ds_join"
                                  strong, ppPending, ppClosed, ppNotify, ppNC, 
                                  ppBP, ppDepth, ppAlive, ppHeld, inItems, 
                                  inClosed, inWaker, pollFn, chuteFn, pwTaken, 
-                                 nextPoll, ppItem, dead, sti, rq, sq, sj, ww, 
-                                 rsq, bown, bwk, bi, bcur, bw, bsp, jq, jj, 
-                                 jwk, fj, dq, dj, oq, oop, omode, oj, yq, yop, 
-                                 tq, top, af, wf, wop, sf, sctx, xf, cop, kj, 
-                                 pp, np, nbp, nres, dp, pf, pctx, pq, pj, pd, 
-                                 nq >>
+                                 nextPoll, ppItem, pjLive, dead, sti, rq, sq, 
+                                 sj, ww, rsq, bown, bwk, bi, bcur, bw, bsp, jq, 
+                                 jj, jwk, fj, dq, dj, oq, oop, omode, oj, yq, 
+                                 yop, tq, top, af, wf, wop, sf, sctx, xf, cop, 
+                                 kj, pp, np, nbp, nres, dp, pf, pctx, pq, pj, 
+                                 pd, nq >>
 
 Despawn(self) == ds_max(self) \/ ds_pop(self) \/ ds_join(self)
 
@@ -5923,11 +5951,11 @@ pf_decide(self) == /\ pc[self] = "pf_decide"
                                    ppPending, ppClosed, ppNotify, ppNC, ppBP, 
                                    ppDepth, ppAlive, ppHeld, inItems, inClosed, 
                                    inWaker, pollFn, chuteFn, pwTaken, nextPoll, 
-                                   ppItem, h, dead, sti, rq, sq, sj, ww, rsq, 
-                                   bown, bwk, bi, bcur, bw, bsp, jq, jj, jwk, 
-                                   fj, dq, dj, oq, oop, omode, oj, yq, yop, tq, 
-                                   top, af, wf, wop, sf, sctx, xf, cop, kj, pp, 
-                                   np, nbp, nres, dp, nq >>
+                                   ppItem, pjLive, h, dead, sti, rq, sq, sj, 
+                                   ww, rsq, bown, bwk, bi, bcur, bw, bsp, jq, 
+                                   jj, jwk, fj, dq, dj, oq, oop, omode, oj, yq, 
+                                   yop, tq, top, af, wf, wop, sf, sctx, xf, 
+                                   cop, kj, pp, np, nbp, nres, dp, nq >>
 
 dq_res(self) == /\ pc[self] = "dq_res"
                 /\ IF fres[pf[self]] = "some"
@@ -5951,12 +5979,12 @@ dq_res(self) == /\ pc[self] = "dq_res"
                                 strong, ppPending, ppClosed, ppNotify, ppNC, 
                                 ppBP, ppDepth, ppAlive, ppHeld, inItems, 
                                 inClosed, inWaker, pollFn, chuteFn, pwTaken, 
-                                nextPoll, ppItem, h, stack, dead, sti, rq, sq, 
-                                sj, ww, rsq, bown, bwk, bi, bcur, bw, bsp, jq, 
-                                jj, jwk, fj, dq, dj, oq, oop, omode, oj, yq, 
-                                yop, tq, top, af, wf, wop, sf, sctx, xf, cop, 
-                                kj, pp, np, nbp, nres, dp, pf, pctx, pq, pj, 
-                                pd, nq >>
+                                nextPoll, ppItem, pjLive, h, stack, dead, sti, 
+                                rq, sq, sj, ww, rsq, bown, bwk, bi, bcur, bw, 
+                                bsp, jq, jj, jwk, fj, dq, dj, oq, oop, omode, 
+                                oj, yq, yop, tq, top, af, wf, wop, sf, sctx, 
+                                xf, cop, kj, pp, np, nbp, nres, dp, pf, pctx, 
+                                pq, pj, pd, nq >>
 
 dq_deq(self) == /\ pc[self] = "dq_deq"
                 /\ IF qstate[pq[self]] \in Waiting \/ jobs[pq[self]] = << >>
@@ -5988,11 +6016,11 @@ dq_deq(self) == /\ pc[self] = "dq_deq"
                                 strong, ppPending, ppClosed, ppNotify, ppNC, 
                                 ppBP, ppDepth, ppAlive, ppHeld, inItems, 
                                 inClosed, inWaker, pollFn, chuteFn, pwTaken, 
-                                nextPoll, ppItem, h, dead, sti, rq, sq, sj, ww, 
-                                rsq, bown, bwk, bi, bcur, bw, bsp, fj, dq, dj, 
-                                oq, oop, omode, oj, yq, yop, tq, top, af, wf, 
-                                wop, sf, sctx, xf, cop, kj, pp, np, nbp, nres, 
-                                dp, pf, pctx, pq, nq >>
+                                nextPoll, ppItem, pjLive, h, dead, sti, rq, sq, 
+                                sj, ww, rsq, bown, bwk, bi, bcur, bw, bsp, fj, 
+                                dq, dj, oq, oop, omode, oj, yq, yop, tq, top, 
+                                af, wf, wop, sf, sctx, xf, cop, kj, pp, np, 
+                                nbp, nres, dp, pf, pctx, pq, nq >>
 
 z_dq_after(self) == /\ pc[self] = "z_dq_after"
                     /\ IF rv[self] = 5
@@ -6029,12 +6057,12 @@ z_dq_after(self) == /\ pc[self] = "z_dq_after"
                                     strong, ppPending, ppClosed, ppNotify, 
                                     ppNC, ppBP, ppDepth, ppAlive, ppHeld, 
                                     inItems, inClosed, inWaker, pollFn, 
-                                    chuteFn, pwTaken, nextPoll, ppItem, h, 
-                                    dead, sti, rq, sq, sj, ww, rsq, bown, bwk, 
-                                    bi, bcur, bw, bsp, jq, jj, jwk, dq, dj, oq, 
-                                    oop, omode, oj, yq, yop, tq, top, af, wf, 
-                                    wop, sf, sctx, xf, cop, kj, pp, np, nbp, 
-                                    nres, dp, pf, pctx, pq, pj, pd, nq >>
+                                    chuteFn, pwTaken, nextPoll, ppItem, pjLive, 
+                                    h, dead, sti, rq, sq, sj, ww, rsq, bown, 
+                                    bwk, bi, bcur, bw, bsp, jq, jj, jwk, dq, 
+                                    dj, oq, oop, omode, oj, yq, yop, tq, top, 
+                                    af, wf, wop, sf, sctx, xf, cop, kj, pp, np, 
+                                    nbp, nres, dp, pf, pctx, pq, pj, pd, nq >>
 
 dq_requeue(self) == /\ pc[self] = "dq_requeue"
                     /\ jobs' = [jobs EXCEPT ![pq[self]] = << pj[self] >> \o jobs[pq[self]]]
@@ -6051,8 +6079,8 @@ dq_requeue(self) == /\ pc[self] = "dq_requeue"
                                     strong, ppPending, ppClosed, ppNotify, 
                                     ppNC, ppBP, ppDepth, ppAlive, ppHeld, 
                                     inItems, inClosed, inWaker, pollFn, 
-                                    chuteFn, pwTaken, nextPoll, ppItem, h, 
-                                    stack, dead, sti, rq, sq, sj, ww, rsq, 
+                                    chuteFn, pwTaken, nextPoll, ppItem, pjLive, 
+                                    h, stack, dead, sti, rq, sq, sj, ww, rsq, 
                                     bown, bwk, bi, bcur, bw, bsp, jq, jj, jwk, 
                                     fj, dq, dj, oq, oop, omode, oj, yq, yop, 
                                     tq, top, af, wf, wop, sf, sctx, xf, cop, 
@@ -6081,12 +6109,12 @@ dq_res2(self) == /\ pc[self] = "dq_res2"
                                  atomic, strong, ppPending, ppClosed, ppNotify, 
                                  ppNC, ppBP, ppDepth, ppAlive, ppHeld, inItems, 
                                  inClosed, inWaker, pollFn, chuteFn, pwTaken, 
-                                 nextPoll, ppItem, h, stack, dead, sti, rq, sq, 
-                                 sj, ww, rsq, bown, bwk, bi, bcur, bw, bsp, jq, 
-                                 jj, jwk, fj, dq, dj, oq, oop, omode, oj, yq, 
-                                 yop, tq, top, af, wf, wop, sf, sctx, xf, cop, 
-                                 kj, pp, np, nbp, nres, dp, pf, pctx, pq, pj, 
-                                 pd, nq >>
+                                 nextPoll, ppItem, pjLive, h, stack, dead, sti, 
+                                 rq, sq, sj, ww, rsq, bown, bwk, bi, bcur, bw, 
+                                 bsp, jq, jj, jwk, fj, dq, dj, oq, oop, omode, 
+                                 oj, yq, yop, tq, top, af, wf, wop, sf, sctx, 
+                                 xf, cop, kj, pp, np, nbp, nres, dp, pf, pctx, 
+                                 pq, pj, pd, nq >>
 
 dq_waitwake(self) == /\ pc[self] = "dq_waitwake"
                      /\ qstate' = [qstate EXCEPT ![pq[self]] = "WaitingForWake"]
@@ -6104,12 +6132,12 @@ dq_waitwake(self) == /\ pc[self] = "dq_waitwake"
                                      ppNotify, ppNC, ppBP, ppDepth, ppAlive, 
                                      ppHeld, inItems, inClosed, inWaker, 
                                      pollFn, chuteFn, pwTaken, nextPoll, 
-                                     ppItem, h, stack, dead, sti, rq, sq, sj, 
-                                     ww, rsq, bown, bwk, bi, bcur, bw, bsp, jq, 
-                                     jj, jwk, fj, dq, dj, oq, oop, omode, oj, 
-                                     yq, yop, tq, top, af, wf, wop, sf, sctx, 
-                                     xf, cop, kj, pp, np, nbp, nres, dp, pf, 
-                                     pctx, pq, pj, pd, nq >>
+                                     ppItem, pjLive, h, stack, dead, sti, rq, 
+                                     sq, sj, ww, rsq, bown, bwk, bi, bcur, bw, 
+                                     bsp, jq, jj, jwk, fj, dq, dj, oq, oop, 
+                                     omode, oj, yq, yop, tq, top, af, wf, wop, 
+                                     sf, sctx, xf, cop, kj, pp, np, nbp, nres, 
+                                     dp, pf, pctx, pq, pj, pd, nq >>
 
 dq_ww1(self) == /\ pc[self] = "dq_ww1"
                 /\ IF dwSt[pd[self]] = "Woken"
@@ -6135,11 +6163,12 @@ dq_ww1(self) == /\ pc[self] = "dq_ww1"
                                 strong, ppPending, ppClosed, ppNotify, ppNC, 
                                 ppBP, ppDepth, ppAlive, ppHeld, inItems, 
                                 inClosed, inWaker, pollFn, chuteFn, pwTaken, 
-                                nextPoll, ppItem, h, dead, sti, rq, sq, sj, 
-                                rsq, bown, bwk, bi, bcur, bw, bsp, jq, jj, jwk, 
-                                fj, dq, dj, oq, oop, omode, oj, yq, yop, tq, 
-                                top, af, wf, wop, sf, sctx, xf, cop, kj, pp, 
-                                np, nbp, nres, dp, pf, pctx, pq, pj, pd, nq >>
+                                nextPoll, ppItem, pjLive, h, dead, sti, rq, sq, 
+                                sj, rsq, bown, bwk, bi, bcur, bw, bsp, jq, jj, 
+                                jwk, fj, dq, dj, oq, oop, omode, oj, yq, yop, 
+                                tq, top, af, wf, wop, sf, sctx, xf, cop, kj, 
+                                pp, np, nbp, nres, dp, pf, pctx, pq, pj, pd, 
+                                nq >>
 
 z_dq_ready(self) == /\ pc[self] = "z_dq_ready"
                     /\ pc' = [pc EXCEPT ![self] = Head(stack[self]).pc]
@@ -6161,12 +6190,12 @@ z_dq_ready(self) == /\ pc[self] = "z_dq_ready"
                                     strong, ppPending, ppClosed, ppNotify, 
                                     ppNC, ppBP, ppDepth, ppAlive, ppHeld, 
                                     inItems, inClosed, inWaker, pollFn, 
-                                    chuteFn, pwTaken, nextPoll, ppItem, h, 
-                                    dead, sti, rq, sq, sj, ww, rsq, bown, bwk, 
-                                    bi, bcur, bw, bsp, jq, jj, jwk, fj, dq, dj, 
-                                    oq, oop, omode, oj, yq, yop, tq, top, af, 
-                                    wf, wop, sf, sctx, xf, cop, kj, pp, np, 
-                                    nbp, nres, dp, nq >>
+                                    chuteFn, pwTaken, nextPoll, ppItem, pjLive, 
+                                    h, dead, sti, rq, sq, sj, ww, rsq, bown, 
+                                    bwk, bi, bcur, bw, bsp, jq, jj, jwk, fj, 
+                                    dq, dj, oq, oop, omode, oj, yq, yop, tq, 
+                                    top, af, wf, wop, sf, sctx, xf, cop, kj, 
+                                    pp, np, nbp, nres, dp, nq >>
 
 dq_setwaker(self) == /\ pc[self] = "dq_setwaker"
                      /\ fwaker' = [fwaker EXCEPT ![pf[self]] = pctx[self]]
@@ -6184,12 +6213,12 @@ dq_setwaker(self) == /\ pc[self] = "dq_setwaker"
                                      ppNotify, ppNC, ppBP, ppDepth, ppAlive, 
                                      ppHeld, inItems, inClosed, inWaker, 
                                      pollFn, chuteFn, pwTaken, nextPoll, 
-                                     ppItem, h, stack, dead, sti, rq, sq, sj, 
-                                     ww, rsq, bown, bwk, bi, bcur, bw, bsp, jq, 
-                                     jj, jwk, fj, dq, dj, oq, oop, omode, oj, 
-                                     yq, yop, tq, top, af, wf, wop, sf, sctx, 
-                                     xf, cop, kj, pp, np, nbp, nres, dp, pf, 
-                                     pctx, pq, pj, pd, nq >>
+                                     ppItem, pjLive, h, stack, dead, sti, rq, 
+                                     sq, sj, ww, rsq, bown, bwk, bi, bcur, bw, 
+                                     bsp, jq, jj, jwk, fj, dq, dj, oq, oop, 
+                                     omode, oj, yq, yop, tq, top, af, wf, wop, 
+                                     sf, sctx, xf, cop, kj, pp, np, nbp, nres, 
+                                     dp, pf, pctx, pq, pj, pd, nq >>
 
 dq_waitpoll(self) == /\ pc[self] = "dq_waitpoll"
                      /\ qstate' = [qstate EXCEPT ![pq[self]] = "WaitingForPoll"]
@@ -6207,13 +6236,13 @@ dq_waitpoll(self) == /\ pc[self] = "dq_waitpoll"
                                      strong, ppPending, ppClosed, ppNotify, 
                                      ppNC, ppBP, ppDepth, ppAlive, ppHeld, 
                                      inItems, inClosed, inWaker, pollFn, 
-                                     chuteFn, pwTaken, nextPoll, ppItem, h, 
-                                     stack, dead, sti, rq, sq, sj, ww, rsq, 
-                                     bown, bwk, bi, bcur, bw, bsp, jq, jj, jwk, 
-                                     fj, dq, dj, oq, oop, omode, oj, yq, yop, 
-                                     tq, top, af, wf, wop, sf, sctx, xf, cop, 
-                                     kj, pp, np, nbp, nres, dp, pf, pctx, pq, 
-                                     pj, pd, nq >>
+                                     chuteFn, pwTaken, nextPoll, ppItem, 
+                                     pjLive, h, stack, dead, sti, rq, sq, sj, 
+                                     ww, rsq, bown, bwk, bi, bcur, bw, bsp, jq, 
+                                     jj, jwk, fj, dq, dj, oq, oop, omode, oj, 
+                                     yq, yop, tq, top, af, wf, wop, sf, sctx, 
+                                     xf, cop, kj, pp, np, nbp, nres, dp, pf, 
+                                     pctx, pq, pj, pd, nq >>
 
 dq_ww2(self) == /\ pc[self] = "dq_ww2"
                 /\ dblW1' = [dblW1 EXCEPT ![pd[self]] = WQ(pq[self])]
@@ -6241,11 +6270,11 @@ dq_ww2(self) == /\ pc[self] = "dq_ww2"
                                 ppPending, ppClosed, ppNotify, ppNC, ppBP, 
                                 ppDepth, ppAlive, ppHeld, inItems, inClosed, 
                                 inWaker, pollFn, chuteFn, pwTaken, nextPoll, 
-                                ppItem, h, dead, sti, rq, sq, sj, rsq, bown, 
-                                bwk, bi, bcur, bw, bsp, jq, jj, jwk, fj, dq, 
-                                dj, oq, oop, omode, oj, yq, yop, tq, top, af, 
-                                wf, wop, sf, sctx, xf, cop, kj, pp, np, nbp, 
-                                nres, dp, pf, pctx, pq, pj, pd, nq >>
+                                ppItem, pjLive, h, dead, sti, rq, sq, sj, rsq, 
+                                bown, bwk, bi, bcur, bw, bsp, jq, jj, jwk, fj, 
+                                dq, dj, oq, oop, omode, oj, yq, yop, tq, top, 
+                                af, wf, wop, sf, sctx, xf, cop, kj, pp, np, 
+                                nbp, nres, dp, pf, pctx, pq, pj, pd, nq >>
 
 z_dq_pending(self) == /\ pc[self] = "z_dq_pending"
                       /\ rv' = [rv EXCEPT ![self] = 5]
@@ -6269,12 +6298,12 @@ z_dq_pending(self) == /\ pc[self] = "z_dq_pending"
                                       ppClosed, ppNotify, ppNC, ppBP, ppDepth, 
                                       ppAlive, ppHeld, inItems, inClosed, 
                                       inWaker, pollFn, chuteFn, pwTaken, 
-                                      nextPoll, ppItem, h, dead, sti, rq, sq, 
-                                      sj, ww, rsq, bown, bwk, bi, bcur, bw, 
-                                      bsp, jq, jj, jwk, fj, dq, dj, oq, oop, 
-                                      omode, oj, yq, yop, tq, top, af, wf, wop, 
-                                      sf, sctx, xf, cop, kj, pp, np, nbp, nres, 
-                                      dp, nq >>
+                                      nextPoll, ppItem, pjLive, h, dead, sti, 
+                                      rq, sq, sj, ww, rsq, bown, bwk, bi, bcur, 
+                                      bw, bsp, jq, jj, jwk, fj, dq, dj, oq, 
+                                      oop, omode, oj, yq, yop, tq, top, af, wf, 
+                                      wop, sf, sctx, xf, cop, kj, pp, np, nbp, 
+                                      nres, dp, nq >>
 
 dq_empty_w(self) == /\ pc[self] = "dq_empty_w"
                     /\ fwaker' = [fwaker EXCEPT ![pf[self]] = pctx[self]]
@@ -6291,8 +6320,8 @@ dq_empty_w(self) == /\ pc[self] = "dq_empty_w"
                                     strong, ppPending, ppClosed, ppNotify, 
                                     ppNC, ppBP, ppDepth, ppAlive, ppHeld, 
                                     inItems, inClosed, inWaker, pollFn, 
-                                    chuteFn, pwTaken, nextPoll, ppItem, h, 
-                                    stack, dead, sti, rq, sq, sj, ww, rsq, 
+                                    chuteFn, pwTaken, nextPoll, ppItem, pjLive, 
+                                    h, stack, dead, sti, rq, sq, sj, ww, rsq, 
                                     bown, bwk, bi, bcur, bw, bsp, jq, jj, jwk, 
                                     fj, dq, dj, oq, oop, omode, oj, yq, yop, 
                                     tq, top, af, wf, wop, sf, sctx, xf, cop, 
@@ -6320,13 +6349,13 @@ dq_empty_idle(self) == /\ pc[self] = "dq_empty_idle"
                                        strong, ppPending, ppClosed, ppNotify, 
                                        ppNC, ppBP, ppDepth, ppAlive, ppHeld, 
                                        inItems, inClosed, inWaker, pollFn, 
-                                       chuteFn, pwTaken, nextPoll, ppItem, h, 
-                                       dead, sti, sq, sj, ww, rsq, bown, bwk, 
-                                       bi, bcur, bw, bsp, jq, jj, jwk, fj, dq, 
-                                       dj, oq, oop, omode, oj, yq, yop, tq, 
-                                       top, af, wf, wop, sf, sctx, xf, cop, kj, 
-                                       pp, np, nbp, nres, dp, pf, pctx, pq, pj, 
-                                       pd, nq >>
+                                       chuteFn, pwTaken, nextPoll, ppItem, 
+                                       pjLive, h, dead, sti, sq, sj, ww, rsq, 
+                                       bown, bwk, bi, bcur, bw, bsp, jq, jj, 
+                                       jwk, fj, dq, dj, oq, oop, omode, oj, yq, 
+                                       yop, tq, top, af, wf, wop, sf, sctx, xf, 
+                                       cop, kj, pp, np, nbp, nres, dp, pf, 
+                                       pctx, pq, pj, pd, nq >>
 
 dq_idle(self) == /\ pc[self] = "dq_idle"
                  /\ qstate' = [qstate EXCEPT ![pq[self]] = "Idle"]
@@ -6347,12 +6376,12 @@ dq_idle(self) == /\ pc[self] = "dq_idle"
                                  dsl, atomic, strong, ppPending, ppClosed, 
                                  ppNotify, ppNC, ppBP, ppDepth, ppAlive, 
                                  ppHeld, inItems, inClosed, inWaker, pollFn, 
-                                 chuteFn, pwTaken, nextPoll, ppItem, h, dead, 
-                                 sti, sq, sj, ww, rsq, bown, bwk, bi, bcur, bw, 
-                                 bsp, jq, jj, jwk, fj, dq, dj, oq, oop, omode, 
-                                 oj, yq, yop, tq, top, af, wf, wop, sf, sctx, 
-                                 xf, cop, kj, pp, np, nbp, nres, dp, pf, pctx, 
-                                 pq, pj, pd, nq >>
+                                 chuteFn, pwTaken, nextPoll, ppItem, pjLive, h, 
+                                 dead, sti, sq, sj, ww, rsq, bown, bwk, bi, 
+                                 bcur, bw, bsp, jq, jj, jwk, fj, dq, dj, oq, 
+                                 oop, omode, oj, yq, yop, tq, top, af, wf, wop, 
+                                 sf, sctx, xf, cop, kj, pp, np, nbp, nres, dp, 
+                                 pf, pctx, pq, pj, pd, nq >>
 
 dq_panic(self) == /\ pc[self] = "dq_panic"
                   /\ qstate' = [qstate EXCEPT ![pq[self]] = "Panicked"]
@@ -6375,10 +6404,10 @@ dq_panic(self) == /\ pc[self] = "dq_panic"
                                   atomic, strong, ppPending, ppClosed, 
                                   ppNotify, ppNC, ppBP, ppDepth, ppAlive, 
                                   ppHeld, inItems, inClosed, inWaker, pollFn, 
-                                  chuteFn, pwTaken, nextPoll, ppItem, h, dead, 
-                                  sti, rq, sq, sj, ww, rsq, bown, bwk, bi, 
-                                  bcur, bw, bsp, jq, jj, jwk, fj, dq, dj, oq, 
-                                  oop, omode, oj, yq, yop, tq, top, af, wf, 
+                                  chuteFn, pwTaken, nextPoll, ppItem, pjLive, 
+                                  h, dead, sti, rq, sq, sj, ww, rsq, bown, bwk, 
+                                  bi, bcur, bw, bsp, jq, jj, jwk, fj, dq, dj, 
+                                  oq, oop, omode, oj, yq, yop, tq, top, af, wf, 
                                   wop, sf, sctx, xf, cop, kj, pp, np, nbp, 
                                   nres, dp, nq >>
 
@@ -6421,11 +6450,11 @@ c_start(self) == /\ pc[self] = "c_start"
                                  dsl, atomic, strong, ppPending, ppClosed, 
                                  ppNotify, ppNC, ppBP, ppDepth, ppAlive, 
                                  ppHeld, inItems, inClosed, inWaker, pollFn, 
-                                 chuteFn, pwTaken, nextPoll, ppItem, h, dead, 
-                                 sti, rq, sq, sj, ww, jq, jj, jwk, fj, dq, dj, 
-                                 oq, oop, omode, oj, yq, yop, tq, top, af, wf, 
-                                 wop, sf, sctx, xf, cop, kj, pp, np, nbp, nres, 
-                                 dp, pf, pctx, pq, pj, pd, nq >>
+                                 chuteFn, pwTaken, nextPoll, ppItem, pjLive, h, 
+                                 dead, sti, rq, sq, sj, ww, jq, jj, jwk, fj, 
+                                 dq, dj, oq, oop, omode, oj, yq, yop, tq, top, 
+                                 af, wf, wop, sf, sctx, xf, cop, kj, pp, np, 
+                                 nbp, nres, dp, pf, pctx, pq, pj, pd, nq >>
 
 z_c_exit(self) == /\ pc[self] = "z_c_exit"
                   /\ h' = ObsExit(h, self, 0, 0)
@@ -6441,11 +6470,11 @@ z_c_exit(self) == /\ pc[self] = "z_c_exit"
                                   dsl, atomic, strong, ppPending, ppClosed, 
                                   ppNotify, ppNC, ppBP, ppDepth, ppAlive, 
                                   ppHeld, inItems, inClosed, inWaker, pollFn, 
-                                  chuteFn, pwTaken, nextPoll, ppItem, stack, 
-                                  dead, sti, rq, sq, sj, ww, rsq, bown, bwk, 
-                                  bi, bcur, bw, bsp, jq, jj, jwk, fj, dq, dj, 
-                                  oq, oop, omode, oj, yq, yop, tq, top, af, wf, 
-                                  wop, sf, sctx, xf, cop, kj, pp, np, nbp, 
+                                  chuteFn, pwTaken, nextPoll, ppItem, pjLive, 
+                                  stack, dead, sti, rq, sq, sj, ww, rsq, bown, 
+                                  bwk, bi, bcur, bw, bsp, jq, jj, jwk, fj, dq, 
+                                  dj, oq, oop, omode, oj, yq, yop, tq, top, af, 
+                                  wf, wop, sf, sctx, xf, cop, kj, pp, np, nbp, 
                                   nres, dp, pf, pctx, pq, pj, pd, nq >>
 
 caller(self) == c_start(self) \/ z_c_exit(self)
@@ -6471,12 +6500,12 @@ pt_recv(self) == /\ pc[self] = "pt_recv"
                                  dsl, atomic, strong, ppPending, ppClosed, 
                                  ppNotify, ppNC, ppBP, ppDepth, ppAlive, 
                                  ppHeld, inItems, inClosed, inWaker, pollFn, 
-                                 chuteFn, pwTaken, nextPoll, ppItem, stack, 
-                                 dead, sti, rq, sq, sj, ww, rsq, bown, bwk, bi, 
-                                 bcur, bw, bsp, jq, jj, jwk, fj, dq, dj, oq, 
-                                 oop, omode, oj, yq, yop, tq, top, af, wf, wop, 
-                                 sf, sctx, xf, cop, kj, pp, np, nbp, nres, dp, 
-                                 pf, pctx, pq, pj, pd, nq >>
+                                 chuteFn, pwTaken, nextPoll, ppItem, pjLive, 
+                                 stack, dead, sti, rq, sq, sj, ww, rsq, bown, 
+                                 bwk, bi, bcur, bw, bsp, jq, jj, jwk, fj, dq, 
+                                 dj, oq, oop, omode, oj, yq, yop, tq, top, af, 
+                                 wf, wop, sf, sctx, xf, cop, kj, pp, np, nbp, 
+                                 nres, dp, pf, pctx, pq, pj, pd, nq >>
 
 pt_next(self) == /\ pc[self] = "pt_next"
                  /\ LET r == NTR(schedule) IN
@@ -6499,12 +6528,12 @@ pt_next(self) == /\ pc[self] = "pt_next"
                                  rneed, dsl, atomic, strong, ppPending, 
                                  ppClosed, ppNotify, ppNC, ppBP, ppDepth, 
                                  ppAlive, ppHeld, inItems, inClosed, inWaker, 
-                                 pollFn, chuteFn, pwTaken, nextPoll, ppItem, h, 
-                                 stack, dead, sti, rq, sq, sj, ww, rsq, bown, 
-                                 bwk, bi, bcur, bw, bsp, jq, jj, jwk, fj, dq, 
-                                 dj, oq, oop, omode, oj, yq, yop, tq, top, af, 
-                                 wf, wop, sf, sctx, xf, cop, kj, pp, np, nbp, 
-                                 nres, dp, pf, pctx, pq, pj, pd >>
+                                 pollFn, chuteFn, pwTaken, nextPoll, ppItem, 
+                                 pjLive, h, stack, dead, sti, rq, sq, sj, ww, 
+                                 rsq, bown, bwk, bi, bcur, bw, bsp, jq, jj, 
+                                 jwk, fj, dq, dj, oq, oop, omode, oj, yq, yop, 
+                                 tq, top, af, wf, wop, sf, sctx, xf, cop, kj, 
+                                 pp, np, nbp, nres, dp, pf, pctx, pq, pj, pd >>
 
 pt_after(self) == /\ pc[self] = "pt_after"
                   /\ busyLocked' = [busyLocked EXCEPT ![self] = FALSE]
@@ -6532,9 +6561,9 @@ pt_after(self) == /\ pc[self] = "pt_after"
                                   atomic, strong, ppPending, ppClosed, 
                                   ppNotify, ppNC, ppBP, ppDepth, ppAlive, 
                                   ppHeld, inItems, inClosed, inWaker, pollFn, 
-                                  chuteFn, pwTaken, nextPoll, ppItem, h, dead, 
-                                  sti, rq, sq, sj, ww, rsq, bown, bwk, bi, 
-                                  bcur, bw, bsp, jq, jj, jwk, fj, oq, oop, 
+                                  chuteFn, pwTaken, nextPoll, ppItem, pjLive, 
+                                  h, dead, sti, rq, sq, sj, ww, rsq, bown, bwk, 
+                                  bi, bcur, bw, bsp, jq, jj, jwk, fj, oq, oop, 
                                   omode, oj, yq, yop, tq, top, af, wf, wop, sf, 
                                   sctx, xf, cop, kj, pp, np, nbp, nres, dp, pf, 
                                   pctx, pq, pj, pd, nq >>
@@ -6557,11 +6586,11 @@ z_pt_chk(self) == /\ pc[self] = "z_pt_chk"
                                   dsl, atomic, strong, ppPending, ppClosed, 
                                   ppNotify, ppNC, ppBP, ppDepth, ppAlive, 
                                   ppHeld, inItems, inClosed, inWaker, pollFn, 
-                                  chuteFn, pwTaken, nextPoll, ppItem, stack, 
-                                  dead, sti, rq, sq, sj, ww, rsq, bown, bwk, 
-                                  bi, bcur, bw, bsp, jq, jj, jwk, fj, dq, dj, 
-                                  oq, oop, omode, oj, yq, yop, tq, top, af, wf, 
-                                  wop, sf, sctx, xf, cop, kj, pp, np, nbp, 
+                                  chuteFn, pwTaken, nextPoll, ppItem, pjLive, 
+                                  stack, dead, sti, rq, sq, sj, ww, rsq, bown, 
+                                  bwk, bi, bcur, bw, bsp, jq, jj, jwk, fj, dq, 
+                                  dj, oq, oop, omode, oj, yq, yop, tq, top, af, 
+                                  wf, wop, sf, sctx, xf, cop, kj, pp, np, nbp, 
                                   nres, dp, pf, pctx, pq, pj, pd, nq >>
 
 z_pt_done(self) == /\ pc[self] = "z_pt_done"
@@ -6579,12 +6608,12 @@ z_pt_done(self) == /\ pc[self] = "z_pt_done"
                                    strong, ppPending, ppClosed, ppNotify, ppNC, 
                                    ppBP, ppDepth, ppAlive, ppHeld, inItems, 
                                    inClosed, inWaker, pollFn, chuteFn, pwTaken, 
-                                   nextPoll, ppItem, h, stack, dead, sti, rq, 
-                                   sq, sj, ww, rsq, bown, bwk, bi, bcur, bw, 
-                                   bsp, jq, jj, jwk, fj, dq, dj, oq, oop, 
-                                   omode, oj, yq, yop, tq, top, af, wf, wop, 
-                                   sf, sctx, xf, cop, kj, pp, np, nbp, nres, 
-                                   dp, pf, pctx, pq, pj, pd, nq >>
+                                   nextPoll, ppItem, pjLive, h, stack, dead, 
+                                   sti, rq, sq, sj, ww, rsq, bown, bwk, bi, 
+                                   bcur, bw, bsp, jq, jj, jwk, fj, dq, dj, oq, 
+                                   oop, omode, oj, yq, yop, tq, top, af, wf, 
+                                   wop, sf, sctx, xf, cop, kj, pp, np, nbp, 
+                                   nres, dp, pf, pctx, pq, pj, pd, nq >>
 
 pool(self) == pt_recv(self) \/ pt_next(self) \/ pt_after(self)
                  \/ z_pt_chk(self) \/ z_pt_done(self)
